@@ -22,6 +22,7 @@ Supported subset (anything else raises GenError):
 from __future__ import annotations
 
 import ast
+import functools
 import inspect
 import textwrap
 
@@ -1750,3 +1751,2602 @@ def gen_bringup_fn() -> str:
             f"(* from the source of EZSP.__init__: the assignments of _ezsp_version, _protocol (None), _ezsp_event (a new Event) *)\n"
             f"Definition py_EZSP_init : bu_state := ({v0}, {BU_NO_HANDLER}, false, []).\n\n")
     return head + "".join(fns)
+
+
+
+
+# ==================================================================================================
+# ProtocolHandler (bellows/ezsp/protocol.py): __call__, _get_command_priority, _ezsp_frame, command, the
+# COMMANDS_BY_ID comprehension of __init__; and EZSP.frame_received (bellows/ezsp/__init__.py), the caller of __call__
+# ==================================================================================================
+class _Pop:
+    """marker in a statement list: control leaves the innermost `try` / `with` normally"""
+
+
+def _ph_clean(node):
+    """strip log calls and docstrings, then remove what only fed them: an `if` with a side-effect-free test whose
+    branches are empty, and an assignment of a side-effect-free value to a local that is never read.  Returns the
+    cleaned body and the removed statements (listed in the emitted comment)."""
+    node = _StripLogs().visit(node)
+    removed = []
+
+    def pure_test(e):
+        return isinstance(e, ast.Name) or ast.unparse(e) == "self._send_semaphore.locked()"
+
+    def pure_value(e):
+        return isinstance(e, (ast.Constant, ast.Name)) or ast.unparse(e) == "time.monotonic()"
+
+    def empty(body):
+        return all(isinstance(x, ast.Pass) for x in body)
+
+    changed = True
+    while changed:
+        changed = False
+        loaded = {n.id for n in ast.walk(node) if isinstance(n, ast.Name) and isinstance(n.ctx, ast.Load)}
+        for parent in ast.walk(node):
+            for f in ("body", "orelse"):
+                body = getattr(parent, f, None)
+                if not (isinstance(body, list) and body and isinstance(body[0], ast.stmt)):
+                    continue
+                new = []
+                for s in body:
+                    if isinstance(s, ast.If) and empty(s.body) and empty(s.orelse) and pure_test(s.test):
+                        removed.append(f"if {ast.unparse(s.test)}: <log>")
+                        changed = True
+                    elif isinstance(s, ast.Assign) and len(s.targets) == 1 and isinstance(s.targets[0], ast.Name) \
+                            and s.targets[0].id not in loaded and pure_value(s.value):
+                        removed.append(ast.unparse(s))
+                        changed = True
+                    elif isinstance(s, ast.Pass) and len(body) > 1:
+                        changed = True
+                    else:
+                        new.append(s)
+                if f == "body" and not new:
+                    new = [ast.Pass()]
+                setattr(parent, f, new)
+    return list(node.body), removed
+
+
+class PhTr:
+    """statements of a ProtocolHandler / EZSP method.  State variables (`self._seq` -> seq, `self._awaiting` -> awaiting)
+    and the effect list `eff` are threaded through; a statement list is translated in continuation style; `try` /
+    `with` push an entry on the handler stack `hs`; a raise is resolved against that stack at translation time when
+    the exception is known (exception values: see EXC), with `is_Exception e` when it is the outcome of a call."""
+
+    # exception value -> (classes of an except clause that certainly catch it, classes that might: refused; None = any)
+    EXC = {
+        "XHeader": ({"Exception", "BaseException"}, None),                     # IndexError / ValueError of _ezsp_frame_rx / _tx
+        "XKeyError": ({"KeyError", "LookupError", "Exception", "BaseException"}, set()),
+        "XDeserialize": ({"Exception", "BaseException"}, None),
+        "XSerialize": ({"Exception", "BaseException"}, None),
+        "XAssertion": ({"AssertionError", "Exception", "BaseException"}, set()),
+        "XInvalidState": ({"asyncio.InvalidStateError", "Exception", "BaseException"}, set()),
+        "XSend": ({"Exception", "BaseException"}, None),
+        "XTimeout": ({"asyncio.TimeoutError", "TimeoutError", "Exception", "BaseException"}, {"OSError"}),
+        "XCancelled": ({"asyncio.CancelledError", "BaseException"}, set()),
+    }
+
+    def __init__(self, where, state, mode):
+        self.where, self.state, self.mode = where, list(state), mode     # mode: 'method' | 'value' (returns bytes, no state)
+
+    def refuse(self, node, why="unsupported construct"):
+        src = ast.unparse(node) if isinstance(node, ast.AST) else str(node)
+        raise GenError(self.where, f"{why}: `{src[:100]}`")
+
+    # ---- leaving the function ---------------------------------------------------------------------
+    def _exits(self, hs, down_to=0):
+        return "".join(f"let eff := eff ++ [{h[1]}] in\n" for h in reversed(hs[down_to:]) if h[0] == "exit")
+
+    def final(self, ret, hs):
+        if self.mode == "value":
+            return ret
+        return self._exits(hs) + "(" + ", ".join(self.state + [ret]) + ")"
+
+    def final_raise(self, exc, hs):
+        if self.mode == "value":
+            return f"Exn {exc}"
+        return self._exits(hs) + "(" + ", ".join(self.state + [f"PyRaise {exc}"]) + ")"
+
+    def catches(self, types, exc, node):
+        if types is None:
+            return True
+        sure, maybe = self.EXC[exc]
+        if any(t in sure for t in types):
+            return True
+        if maybe is None or any(t in maybe for t in types):
+            self.refuse(node, f"cannot decide whether this clause catches {exc}")
+        return False
+
+    def raise_(self, exc, hs, node):
+        """a raise of the known exception value `exc` under the handler stack hs"""
+        for i in range(len(hs) - 1, -1, -1):
+            h = hs[i]
+            if h[0] != "except":
+                continue
+            _, handlers, rest, try_node = h
+            for types, hbody in handlers:
+                if self.catches(types, exc, try_node):
+                    return self._exits(hs, i + 1) + self.stmts(list(hbody) + rest, hs[:i], {"cur": exc, "present": frozenset()})
+        return self.final_raise(exc, hs)
+
+    def raise_dyn(self, var, hs, node):
+        """a raise of the exception value held by the Gallina variable `var` (the outcome of a call / of an await)"""
+        for i in range(len(hs) - 1, -1, -1):
+            h = hs[i]
+            if h[0] != "except":
+                continue
+            _, handlers, rest, try_node = h
+            if len(handlers) != 1 or handlers[0][0] != ["Exception"]:
+                self.refuse(try_node, "only `except Exception` is supported around a call whose exception is not known statically")
+            caught = self._exits(hs, i + 1) + self.stmts(list(handlers[0][1]) + rest, hs[:i], {"cur": None, "present": frozenset()})
+            return (f"if is_Exception {var} then\n{textwrap.indent(caught, '  ')}\nelse\n"
+                    f"{textwrap.indent(self.final_raise(var, hs), '  ')}")
+        return self.final_raise(var, hs)
+
+    # ---- expressions --------------------------------------------------------------------------------
+    def ex(self, e):
+        src = ast.unparse(e)
+        if isinstance(e, ast.Name):
+            return e.id
+        if src == "self._seq" and "seq" in self.state:
+            return "seq"
+        if isinstance(e, ast.Constant) and isinstance(e.value, int) and not isinstance(e.value, bool) and e.value >= 0:
+            return str(e.value)
+        if isinstance(e, ast.Constant) and isinstance(e.value, str) and '"' not in e.value:
+            return f'"{e.value}"%string'
+        if isinstance(e, ast.BinOp) and isinstance(e.op, (ast.Add, ast.Mod)):
+            op = "+" if isinstance(e.op, ast.Add) else "mod"
+            return f"({self.ex(e.left)} {op} {self.ex(e.right)})"
+        if isinstance(e, ast.Tuple):
+            return "(" + ", ".join(self.ex(x) for x in e.elts) + ")"
+        self.refuse(e, "expression")
+
+    def cond(self, t):
+        src = ast.unparse(t)
+        if isinstance(t, ast.UnaryOp) and isinstance(t.op, ast.Not):
+            if src == "not data":
+                return "is_empty data"                        # truthiness of bytes
+            return f"negb ({self.cond(t.operand)})"
+        if src == "self._protocol is None":
+            return "negb has_protocol"
+        if isinstance(t, ast.Compare) and len(t.ops) == 1 and isinstance(t.ops[0], (ast.Eq, ast.NotEq)):
+            a, b = t.left, t.comparators[0]
+            is_str = any(isinstance(x, ast.Constant) and isinstance(x.value, str) for x in (a, b))
+            c = f"String.eqb {self.ex(a)} {self.ex(b)}" if is_str else f"{self.ex(a)} =? {self.ex(b)}"
+            return c if isinstance(t.ops[0], ast.Eq) else f"negb ({c})"
+        self.refuse(t, "condition")
+
+    @staticmethod
+    def _names(target, n=None):
+        """names of a tuple-unpacking target"""
+        if isinstance(target, ast.Tuple) and all(isinstance(x, ast.Name) for x in target.elts) and (n is None or len(target.elts) == n):
+            return [x.id for x in target.elts]
+        return None
+
+    # ---- statements ---------------------------------------------------------------------------------
+    def stmts(self, body, hs, env):
+        ind = lambda txt, k=2: textwrap.indent(txt, " " * k)
+        if not body:
+            if self.mode == "value":
+                raise GenError(self.where, "control reaches the end of the function without a return")
+            return self.final("PyNone", hs)
+        s, rest = body[0], body[1:]
+        go = lambda: self.stmts(rest, hs, env)
+        if isinstance(s, _Pop):
+            pre = f"let eff := eff ++ [{hs[-1][1]}] in\n" if hs[-1][0] == "exit" else ""
+            return pre + self.stmts(rest, hs[:-1], env)
+        if isinstance(s, ast.Pass):
+            return go()
+        src = ast.unparse(s)
+        # ---- return / raise / assert
+        if isinstance(s, ast.Return):
+            if s.value is None:
+                return self.final("PyNone", hs)
+            if self.mode == "value" and isinstance(s.value, ast.BinOp) and isinstance(s.value.op, ast.Add):
+                return self.final(f"Ok ({self.ex(s.value.left)} ++ {self.ex(s.value.right)})", hs)      # bytes + bytes
+            self.refuse(s, "return value")
+        if isinstance(s, ast.Raise):
+            if s.exc is None and s.cause is None and env["cur"]:
+                return self.raise_(env["cur"], hs, s)
+            self.refuse(s, "raise")
+        if isinstance(s, ast.Assert) and s.msg is None:
+            return (f"if {self.cond(s.test)} then\n{ind(go())}\nelse   (* AssertionError *)\n{ind(self.raise_('XAssertion', hs, s))}")
+        # ---- try / except
+        if isinstance(s, ast.Try):
+            if s.orelse or s.finalbody or not s.handlers:
+                self.refuse(s, "try with else / finally")
+            handlers = []
+            for h in s.handlers:
+                if h.name is not None:
+                    self.refuse(s, "except ... as name")
+                if h.type is None:
+                    types = None
+                elif isinstance(h.type, ast.Tuple):
+                    types = [ast.unparse(x) for x in h.type.elts]
+                else:
+                    types = [ast.unparse(h.type)]
+                handlers.append((types, list(h.body)))
+            return self.stmts(list(s.body) + [_Pop()] + rest, hs + (("except", handlers, rest, s),), env)
+        # ---- if
+        if isinstance(s, ast.If):
+            t = s.test
+            # membership in the _awaiting dict, followed by the unpacking of the entry
+            if isinstance(t, ast.Compare) and len(t.ops) == 1 and isinstance(t.ops[0], ast.In) \
+                    and ast.unparse(t.comparators[0]) == "self._awaiting" and "awaiting" in self.state:
+                key = ast.unparse(t.left)
+                first = s.body[0]
+                names = self._names(first.targets[0], 3) if isinstance(first, ast.Assign) and len(first.targets) == 1 else None
+                v = ast.unparse(first.value) if isinstance(first, ast.Assign) else ""
+                if names is None or v not in (f"self._awaiting.pop({key})", f"self._awaiting[{key}]"):
+                    self.refuse(first, "expected the unpacking of the entry found by the membership test")
+                popped = v.startswith("self._awaiting.pop")
+                env_in = dict(env, present=env["present"] if popped else env["present"] | {key})
+                a = self.stmts(list(s.body[1:]) + rest, hs, env_in)
+                if popped:
+                    a = f"let awaiting := dict_del {self.ex(t.left)} awaiting in\n" + a
+                b = self.stmts(list(s.orelse) + rest, hs, env)
+                return (f"match dict_get {self.ex(t.left)} awaiting with\n| Some ({', '.join(names)}) =>\n{ind(a, 4)}\n"
+                        f"| None =>\n{ind(b, 4)}\nend")
+            # the two codecs of zigpy / bellows.types (modelled by model/EzspCodec.v over the flattened schemas)
+            if _dump(src) == _dump("if isinstance(rx_schema, dict):\n    result, data = t.deserialize_dict(data, rx_schema)\n"
+                                   "    result = list(result.values())\nelse:\n    result, data = rx_schema.deserialize(data)"):
+                return (f"match py_deserialize schemas rx_schema data with\n| None =>\n{ind(self.raise_('XDeserialize', hs, s), 4)}\n"
+                        f"| Some (result, data) =>\n{ind(go(), 4)}\nend")
+            if _dump(src) == _dump("if isinstance(tx_schema, dict):\n    data = t.serialize_dict(args, kwargs, tx_schema)\n"
+                                   "else:\n    data = tx_schema(*args, **kwargs).serialize()"):
+                return (f"match py_serialize schemas tx_schema args with\n| None =>\n{ind(self.raise_('XSerialize', hs, s), 4)}\n"
+                        f"| Some data =>\n{ind(go(), 4)}\nend")
+            a = self.stmts(list(s.body) + rest, hs, env)
+            b = self.stmts(list(s.orelse) + rest, hs, env)
+            return f"if {self.cond(t)} then\n{ind(a)}\nelse\n{ind(b)}"
+        # ---- assignments
+        if isinstance(s, ast.Assign) and len(s.targets) == 1:
+            tgt, val = s.targets[0], s.value
+            v = ast.unparse(val)
+            names = self._names(tgt)
+            if names and v == "self._ezsp_frame_rx(data)" and len(names) == 3:
+                return (f"match frame_rx data with\n| None =>\n{ind(self.raise_('XHeader', hs, s), 4)}\n"
+                        f"| Some ({', '.join(names)}) =>\n{ind(go(), 4)}\nend")
+            if names and len(names) == 3 and isinstance(val, ast.Subscript) and ast.unparse(val.value) == "self.COMMANDS_BY_ID":
+                return (f"match dict_get {self.ex(val.slice)} COMMANDS_BY_ID with\n| None =>\n{ind(self.raise_('XKeyError', hs, s), 4)}\n"
+                        f"| Some ({', '.join(names)}) =>\n{ind(go(), 4)}\nend")
+            if isinstance(tgt, ast.Name) and isinstance(val, ast.Subscript) and isinstance(val.slice, ast.Constant) and val.slice.value == 0 \
+                    and isinstance(val.value, ast.Subscript) and ast.unparse(val.value.value) == "self.COMMANDS_BY_ID":
+                return (f"match dict_get {self.ex(val.value.slice)} COMMANDS_BY_ID with\n| None =>\n{ind(self.raise_('XKeyError', hs, s), 4)}\n"
+                        f"| Some ({tgt.id}, _, _) =>\n{ind(go(), 4)}\nend")
+            if names and len(names) == 3 and isinstance(val, ast.Subscript) and ast.unparse(val.value) == "self.COMMANDS":
+                return (f"match find_by_name {self.ex(val.slice)} COMMANDS with\n| None =>\n{ind(self.raise_('XKeyError', hs, s), 4)}\n"
+                        f"| Some (_, {', '.join(names)}) =>\n{ind(go(), 4)}\nend")
+            if isinstance(tgt, ast.Name) and v == "self._ezsp_frame_tx(name)":
+                return (f"match frame_tx seq name with\n| None =>\n{ind(self.raise_('XHeader', hs, s), 4)}\n"
+                        f"| Some {tgt.id} =>\n{ind(go(), 4)}\nend")
+            if isinstance(tgt, ast.Name) and v == "self._ezsp_frame(name, *args, **kwargs)" and self.mode == "method":
+                return (f"match py_ezsp_frame schemas frame_tx COMMANDS seq name args with\n| Exn e =>\n{ind(self.raise_dyn('e', hs, s), 4)}\n"
+                        f"| Ok {tgt.id} =>\n{ind(go(), 4)}\nend")
+            if isinstance(tgt, ast.Name) and tgt.id == "future" and v == "asyncio.get_running_loop().create_future()":
+                return "(* future = <new future>: named by the parameter `future` *)\n" + go()
+            if isinstance(tgt, ast.Subscript) and ast.unparse(tgt.value) == "self._awaiting" and "awaiting" in self.state:
+                return f"let awaiting := dict_set {self.ex(tgt.slice)} {self.ex(val)} awaiting in\n{go()}"
+            if ast.unparse(tgt) == "self._seq" and "seq" in self.state:
+                term = self.ex(val)
+                return f"let seq := {term} in\n{go()}"
+            self.refuse(s, "assignment")
+        # ---- calls
+        if isinstance(s, ast.Expr) and isinstance(s.value, ast.Call):
+            c = s.value
+            fn = ast.unparse(c.func)
+            if isinstance(c.func, ast.Attribute) and isinstance(c.func.value, ast.Name) and c.func.value.id == "future" \
+                    and c.func.attr in ("set_result", "set_exception") and len(c.args) == 1 and not c.keywords:
+                if c.func.attr == "set_result":
+                    eff = f"PSetResult future {self.ex(c.args[0])}"
+                else:
+                    a = c.args[0]
+                    if not (isinstance(a, ast.Call) and ast.unparse(a.func) == "InvalidCommandError"):
+                        self.refuse(s, "exception set on the future")
+                    eff = "PSetException future XInvalidCommand"
+                return (f"if done future then   (* asyncio.InvalidStateError *)\n{ind(self.raise_('XInvalidState', hs, s))}\nelse\n"
+                        f"{ind(f'let eff := eff ++ [{eff}] in' + chr(10) + go())}")
+            if fn == "self._handle_callback" and len(c.args) == 2 and not c.keywords:
+                return f"let eff := eff ++ [PCallback {self.ex(c.args[0])} {self.ex(c.args[1])}] in\n{go()}"
+            if fn == "self._awaiting.pop" and len(c.args) == 1 and not c.keywords and ast.unparse(c.args[0]) in env["present"]:
+                env2 = dict(env, present=env["present"] - {ast.unparse(c.args[0])})
+                return f"let awaiting := dict_del {self.ex(c.args[0])} awaiting in\n{self.stmts(rest, hs, env2)}"
+            if fn == "self._protocol" and src == "self._protocol(data)":
+                k = self.stmts(rest, hs, env)
+                return ("let '(awaiting, eff1, r) := py_call schemas frame_rx COMMANDS done awaiting data in\nlet eff := eff ++ eff1 in\n"
+                        f"match r with\n| PyRaise e =>\n{ind(self.raise_dyn('e', hs, s), 4)}\n| _ =>\n{ind(k, 4)}\nend")
+        if isinstance(s, ast.Expr) and isinstance(s.value, ast.Await) and ast.unparse(s.value.value) == "self._gw.send_data(data)":
+            return ("let eff := eff ++ [PSendData data] in\nmatch sent with\n"
+                    f"| SentRaised =>\n{ind(self.raise_('XSend', hs, s), 4)}\n| SentCancelled =>\n{ind(self.raise_('XCancelled', hs, s), 4)}\n"
+                    f"| SentOk =>\n{ind(go(), 4)}\nend")
+        # ---- async with
+        if isinstance(s, ast.AsyncWith) and len(s.items) == 1 and s.items[0].optional_vars is None:
+            ce = s.items[0].context_expr
+            if isinstance(ce, ast.Call) and ast.unparse(ce.func) == "self._send_semaphore" and not ce.args \
+                    and [k.arg for k in ce.keywords] == ["priority"] \
+                    and ast.unparse(ce.keywords[0].value) == "self._get_command_priority(name)":
+                inner = self.stmts(list(s.body) + [_Pop()] + rest, hs + (("exit", "PRelease"),), env)
+                return ("let eff := eff ++ [PAcquire (py_get_command_priority name)] in\nmatch acq with\n"
+                        f"| AcqCancelled =>\n{ind(self.raise_('XCancelled', hs, s), 4)}\n| AcqOk =>\n{ind(inner, 4)}\nend")
+            if isinstance(ce, ast.Call) and ast.unparse(ce.func) == "asyncio_timeout" and len(ce.args) == 1 and not ce.keywords \
+                    and isinstance(ce.args[0], ast.Name) and len(s.body) == 1 and ast.unparse(s.body[0]) == "return await future":
+                return (f"let eff := eff ++ [PAwaitFuture future {ce.args[0].id}] in\nmatch waited with\n"
+                        f"| WResult result =>\n{ind(self.final('PyValue result', hs), 4)}\n"
+                        f"| WException e =>\n{ind(self.raise_dyn('e', hs, s), 4)}\n"
+                        f"| WTimeout =>\n{ind(self.raise_('XTimeout', hs, s), 4)}\n"
+                        f"| WCancelled =>\n{ind(self.raise_('XCancelled', hs, s), 4)}\nend")
+        self.refuse(s)
+
+
+def _ph_state_in_one_segment(node, where):
+    """the state a coroutine reads and writes (self._seq, self._awaiting, and the header built from self._seq) must lie
+    between two consecutive suspension points, so that one (state before -> state after) function describes it"""
+    awaits, touches = [], []
+    for n in ast.walk(node):
+        if isinstance(n, ast.Await):
+            awaits.append((n.lineno, n.col_offset))
+        elif isinstance(n, ast.AsyncWith):
+            awaits.append((n.lineno, n.col_offset))
+            awaits.append((n.end_lineno, n.end_col_offset))
+        elif isinstance(n, ast.Attribute) and ast.unparse(n) in ("self._seq", "self._awaiting", "self._ezsp_frame"):
+            touches.append((n.lineno, n.col_offset))
+    if touches and any(min(touches) < a < max(touches) for a in awaits):
+        raise GenError(where, "self._seq / self._awaiting are used on both sides of a suspension point")
+
+
+PH_PRELUDE = """(* GENERATED by harness/pysrc.py from the SOURCE TEXT of bellows/ezsp/protocol.py (ProtocolHandler) and of
+   EZSP.frame_received (bellows/ezsp/__init__.py) -- do not edit *)
+From Coq Require Import String ZArith NArith List Bool.
+Import ListNotations.
+Require Import BV.lib.EzspTypes BV.gen.GenProto BV.model.EzspCodec.
+Open Scope N_scope.
+
+(* ---- conventions -------------------------------------------------------------------------------------------------
+   A Python dict with integer keys is an insertion-ordered association list (d[k] = v replaces in place or appends).
+   COMMANDS is the version's command table as emitted in gen/GenCmd.v: (name, id, tx schema, rx schema) with schemas as
+   indices into SCHEMAS; COMMANDS[name] is [find_by_name name COMMANDS].  A future is named by a number; [done f] is
+   f.done().  The codecs of zigpy / bellows.types are the model's (model/EzspCodec.v; exercised against the real ones
+   by the C07 correspondence).  LOGGER calls, docstrings and what only feeds them are not translated. *)
+Fixpoint dict_get {V : Type} (k : N) (d : list (N * V)) : option V :=
+  match d with [] => None | (k', v) :: d' => if k' =? k then Some v else dict_get k d' end.
+Fixpoint dict_set {V : Type} (k : N) (v : V) (d : list (N * V)) : list (N * V) :=
+  match d with
+  | [] => [(k, v)]
+  | (k', v') :: d' => if k' =? k then (k, v) :: d' else (k', v') :: dict_set k v d'
+  end.
+Fixpoint dict_del {V : Type} (k : N) (d : list (N * V)) : list (N * V) :=
+  match d with [] => [] | (k', v) :: d' => if k' =? k then d' else (k', v) :: dict_del k d' end.
+Definition is_empty (b : list N) : bool := match b with [] => true | _ => false end.
+
+Definition py_serialize (schemas : list schema) (s : nat) (args : list ival) : option (list N) :=
+  encode_schema (schema_at schemas s) args.
+Definition py_deserialize (schemas : list schema) (s : nat) (data : list N) : option (list ival * list N) :=
+  decode_schema (schema_at schemas s) data.
+
+(* exceptions, as far as the control flow distinguishes them *)
+Inductive ph_exc :=
+| XHeader            (* IndexError / ValueError raised by _ezsp_frame_rx / _ezsp_frame_tx *)
+| XKeyError | XDeserialize | XSerialize | XAssertion
+| XInvalidState      (* asyncio.InvalidStateError: set_result / set_exception on a future that is done *)
+| XInvalidCommand    (* bellows.exception.InvalidCommandError *)
+| XSend              (* whatever gateway.send_data raised *)
+| XTimeout | XCancelled.
+(* `except Exception` catches all of them but CancelledError (a BaseException) *)
+Definition is_Exception (e : ph_exc) : bool := match e with XCancelled => false | _ => true end.
+
+Inductive ph_return := PyNone | PyValue (result : list ival) | PyRaise (e : ph_exc).
+Inductive ph_try (A : Type) := Ok (a : A) | Exn (e : ph_exc).
+Arguments Ok {A} a.  Arguments Exn {A} e.
+
+(* the value stored in _awaiting: (cmd_id, rx_schema, future) *)
+Definition ph_awaiting := list (N * (N * nat * N)).
+
+(* effects: the calls a method makes on other objects, in order *)
+Inductive ph_eff :=
+| PSetResult (future : N) (result : list ival)           (* future.set_result(result), future pending *)
+| PSetException (future : N) (e : ph_exc)                (* future.set_exception(InvalidCommandError(..)), future pending *)
+| PCallback (frame_name : string) (result : list ival)   (* self._handle_callback(frame_name, result) *)
+| PAcquire (priority : Z)                                (* async with self._send_semaphore(priority=..): entry *)
+| PRelease                                               (*   ... exit, on every way out of the block *)
+| PSendData (data : list N)                              (* await self._gw.send_data(data) *)
+| PAwaitFuture (future : N) (timeout : N).               (* async with asyncio_timeout(timeout): return await future *)
+
+(* how the three suspension points of command() resume *)
+Inductive ph_acq := AcqOk | AcqCancelled.
+Inductive ph_sent := SentOk | SentRaised | SentCancelled.
+Inductive ph_waited := WResult (result : list ival) | WException (e : ph_exc) | WTimeout | WCancelled.
+
+"""
+
+
+def gen_proto_fn() -> str:
+    import bellows.ezsp as E
+    import bellows.ezsp.protocol as P
+    H = P.ProtocolHandler
+    out = [PH_PRELUDE]
+    ghost = lambda removed: ("   not translated (feeds logging only): " + "; ".join(removed) + "\n") if removed else ""
+
+    # ---- __init__: the COMMANDS_BY_ID comprehension ---------------------------------------------------------------
+    init = _fn_ast(H.__dict__["__init__"])
+    comp = [s for s in init.body if isinstance(s, ast.Assign) and ast.unparse(s.targets[0]) == "self.COMMANDS_BY_ID"]
+    if len(comp) != 1 or not isinstance(comp[0].value, ast.DictComp):
+        raise GenError("ProtocolHandler.__init__", "COMMANDS_BY_ID is not built by one dict comprehension")
+    dc = comp[0].value
+    g = dc.generators[0]
+    ok = (len(dc.generators) == 1 and not g.ifs and not g.is_async and ast.unparse(g.iter) == "self.COMMANDS.items()"
+          and isinstance(g.target, ast.Tuple) and len(g.target.elts) == 2 and isinstance(g.target.elts[0], ast.Name))
+    inner = PhTr._names(g.target.elts[1], 3) if ok else None
+    if inner is None:
+        raise GenError("ProtocolHandler.__init__", f"comprehension form: `{ast.unparse(dc)[:120]}`")
+    bound = [g.target.elts[0].id] + inner
+    vals = PhTr._names(dc.value, 3)
+    if not isinstance(dc.key, ast.Name) or dc.key.id not in bound or vals is None or any(v not in bound for v in vals) or len(set(bound)) != 4:
+        raise GenError("ProtocolHandler.__init__", f"comprehension key / value: `{ast.unparse(dc)[:120]}`")
+    for nm, attr in (("_awaiting", "{}"), ("_seq", "0")):
+        if not any(ast.unparse(s) == f"self.{nm} = {attr}" for s in init.body):
+            raise GenError("ProtocolHandler.__init__", f"self.{nm} is not initialised with {attr}")
+    out.append("(* from the source of ProtocolHandler.__init__: self._awaiting = {}, self._seq = 0 and the comprehension\n"
+               f"   {{{ast.unparse(dc.key)}: {ast.unparse(dc.value)} for {ast.unparse(g.target)} in self.COMMANDS.items()}}  (a later entry replaces an earlier one) *)\n"
+               "Definition py_init : N * ph_awaiting := (0, []).\n"
+               "Definition py_COMMANDS_BY_ID (COMMANDS : list command) : list (N * (string * nat * nat)) :=\n"
+               f"  fold_left (fun d '({', '.join(bound)}) => dict_set {dc.key.id} ({', '.join(vals)}) d) COMMANDS [].\n\n")
+
+    # ---- _get_command_priority -----------------------------------------------------------------------------------
+    node = _fn_ast(H.__dict__["_get_command_priority"])
+    body, _ = _ph_clean(node)
+    where = "ProtocolHandler._get_command_priority (source)"
+    r = body[0].value if len(body) == 1 and isinstance(body[0], ast.Return) else None
+    if [a.arg for a in node.args.args] != ["self", "name"] or not (
+            isinstance(r, ast.Call) and isinstance(r.func, ast.Attribute) and r.func.attr == "get" and isinstance(r.func.value, ast.Dict)
+            and len(r.args) == 2 and not r.keywords and ast.unparse(r.args[0]) == "name"):
+        raise GenError(where, "expected `return {<literal dict>}.get(name, <default>)`")
+
+    def zlit(e):
+        v = ast.literal_eval(e) if isinstance(e, (ast.Constant, ast.UnaryOp)) else None
+        if not isinstance(v, int) or isinstance(v, bool):
+            raise GenError(where, f"priority is not an integer literal: `{ast.unparse(e)}`")
+        return f"({v})%Z"
+    rows, seen = [], set()
+    for k, v in zip(r.func.value.keys, r.func.value.values):
+        if not (isinstance(k, ast.Constant) and isinstance(k.value, str)) or '"' in k.value or k.value in seen:
+            raise GenError(where, f"key of the literal dict: `{ast.unparse(k) if k else '**'}`")
+        seen.add(k.value)
+        rows.append(f'("{k.value}"%string, {zlit(v)})')
+    out.append("(* from the source of ProtocolHandler._get_command_priority: the literal dict (keys distinct) and .get(name, default) *)\n"
+               "Definition py_priority_dict : list (string * Z) :=\n  [" + ";\n   ".join(rows) + "].\n"
+               "Fixpoint str_get (k : string) (d : list (string * Z)) : option Z :=\n"
+               "  match d with [] => None | (k', v) :: d' => if String.eqb k' k then Some v else str_get k d' end.\n"
+               "Definition py_get_command_priority (name : string) : Z :=\n"
+               f"  match str_get name py_priority_dict with Some p => p | None => {zlit(r.args[1])} end.\n\n")
+
+    # ---- __call__ ---------------------------------------------------------------------------------------------------
+    node = _fn_ast(H.__dict__["__call__"])
+    if [a.arg for a in node.args.args] != ["self", "data"] or node.args.vararg or node.args.kwarg:
+        raise GenError("ProtocolHandler.__call__", "parameters")
+    body, removed = _ph_clean(node)
+    tr = PhTr("ProtocolHandler.__call__ (source)", ["awaiting", "eff"], "method")
+    term = tr.stmts(body, (), {"cur": None, "present": frozenset()})
+    out.append("(* from the source of ProtocolHandler.__call__.  frame_rx is self._ezsp_frame_rx (None: it raised; gen/GenEzspFn.v has\n"
+               "   the three versions); result: the _awaiting dict afterwards, the effects, how the call ended\n" + ghost(removed) + "*)\n"
+               "Definition py_call (schemas : list schema) (frame_rx : list N -> option (N * N * list N)) (COMMANDS : list command)\n"
+               "    (done : N -> bool) (awaiting : ph_awaiting) (data : list N) : ph_awaiting * list ph_eff * ph_return :=\n"
+               "  let COMMANDS_BY_ID := py_COMMANDS_BY_ID COMMANDS in\n  let eff := @nil ph_eff in\n" + textwrap.indent(term, "  ") + ".\n\n")
+
+    # ---- EZSP.frame_received ----------------------------------------------------------------------------------------
+    node = _fn_ast(E.EZSP.__dict__["frame_received"])
+    if [a.arg for a in node.args.args] != ["self", "data"]:
+        raise GenError("EZSP.frame_received", "parameters")
+    body, removed = _ph_clean(node)
+    tr = PhTr("EZSP.frame_received (source)", ["awaiting", "eff"], "method")
+    term = tr.stmts(body, (), {"cur": None, "present": frozenset()})
+    out.append("(* from the source of EZSP.frame_received (bellows/ezsp/__init__.py), the caller of __call__; has_protocol:\n"
+               "   self._protocol is not None\n" + ghost(removed) + "*)\n"
+               "Definition py_EZSP_frame_received (schemas : list schema) (frame_rx : list N -> option (N * N * list N))\n"
+               "    (COMMANDS : list command) (done : N -> bool) (has_protocol : bool) (awaiting : ph_awaiting) (data : list N)\n"
+               "  : ph_awaiting * list ph_eff * ph_return :=\n  let eff := @nil ph_eff in\n" + textwrap.indent(term, "  ") + ".\n\n")
+
+    # ---- _ezsp_frame ------------------------------------------------------------------------------------------------
+    node = _fn_ast(H.__dict__["_ezsp_frame"])
+    if [a.arg for a in node.args.args] != ["self", "name"] or not node.args.vararg or node.args.vararg.arg != "args" \
+            or not node.args.kwarg or node.args.kwarg.arg != "kwargs":
+        raise GenError("ProtocolHandler._ezsp_frame", "parameters")
+    body, removed = _ph_clean(node)
+    tr = PhTr("ProtocolHandler._ezsp_frame (source)", [], "value")
+    term = tr.stmts(body, (), {"cur": None, "present": frozenset()})
+    out.append("(* from the source of ProtocolHandler._ezsp_frame.  frame_tx seq name is self._ezsp_frame_tx(name) with self._seq = seq\n"
+               "   (None: it raised); args: the arguments bound to the schema's fields (positional / keyword binding: C07)\n" + ghost(removed) + "*)\n"
+               "Definition py_ezsp_frame (schemas : list schema) (frame_tx : N -> string -> option (list N)) (COMMANDS : list command)\n"
+               "    (seq : N) (name : string) (args : list ival) : ph_try (list N) :=\n" + textwrap.indent(term, "  ") + ".\n\n")
+
+    # ---- command ----------------------------------------------------------------------------------------------------
+    node = _fn_ast_async(H.__dict__["command"])
+    if [a.arg for a in node.args.args] != ["self", "name"] or not node.args.vararg or node.args.vararg.arg != "args" \
+            or not node.args.kwarg or node.args.kwarg.arg != "kwargs":
+        raise GenError("ProtocolHandler.command", "parameters")
+    _ph_state_in_one_segment(node, "ProtocolHandler.command (source)")
+    if int(P.MAX_COMMAND_CONCURRENCY) != 1 or not any(
+            _dump(ast.unparse(s)) == _dump("self._send_semaphore = PriorityDynamicBoundedSemaphore(value=MAX_COMMAND_CONCURRENCY)")
+            for s in init.body):
+        raise GenError("ProtocolHandler.__init__", "the send semaphore is no longer PriorityDynamicBoundedSemaphore(value=MAX_COMMAND_CONCURRENCY = 1)")
+    body, removed = _ph_clean(node)
+    tr = PhTr("ProtocolHandler.command (source)", ["seq", "awaiting", "eff"], "method")
+    term = tr.stmts(body, (), {"cur": None, "present": frozenset()})
+    out.append("(* from the source of ProtocolHandler.command, a coroutine with three suspension points: the entry of the send\n"
+               "   semaphore, gateway.send_data, the wait for the reply under the timeout.  How each resumes is a parameter (acq,\n"
+               "   sent, waited).  self._seq / self._awaiting are read and written only between the first and the second (checked\n"
+               "   by the translator): (seq, awaiting) is the state when the semaphore is granted, the result carries the state at\n"
+               "   the call of send_data, the effects in order and how the coroutine ended\n" + ghost(removed) + "*)\n"
+               "Definition py_command (schemas : list schema) (frame_tx : N -> string -> option (list N)) (COMMANDS : list command)\n"
+               "    (seq : N) (awaiting : ph_awaiting) (name : string) (args : list ival) (future : N)\n"
+               "    (acq : ph_acq) (sent : ph_sent) (waited : ph_waited) : N * ph_awaiting * list ph_eff * ph_return :=\n"
+               "  let eff := @nil ph_eff in\n" + textwrap.indent(term, "  ") + ".\n")
+    return "".join(out)
+
+
+
+
+# ==================================================================================================
+# EZSP.write_config (bellows/ezsp/__init__.py): dicts, three kinds of `for` loop over them, awaits of NCP commands
+# ==================================================================================================
+# Representation (coq/lib/PyDict.v, prelude of GenConfigFn.v):
+#   * a dict is an association list with Python's semantics (assignment keeps the position of an existing key and
+#     appends a new one, pop removes, .values()/.items() iterate in insertion order);
+#   * enum members (EzspConfigId / EzspValueId) and their `.name` strings are both represented by the numeric id --
+#     sound because the generator checks that every name involved is the canonical name of its member, so
+#     name <-> id is one-to-one; the translator still keeps the four kinds apart (cid / cname / vid / vname) and refuses
+#     a dict keyed or a command called with the wrong one;
+#   * the dataclasses become records, `dataclasses.replace` a record update, `isinstance` on an element of
+#     DEFAULT_CONFIG[...] a match on the constructor of the generated table entry;
+#   * `await self.<command>(...)` reads the NCP's answer from an oracle `o : ncp` (an argument of the emitted
+#     function; the answer may depend on every command issued so far) and appends the command to `trace`;
+#   * statements are translated in continuation style; the mutable locals (ezsp_config, ezsp_values, trace) plus a
+#     control-flow flag (Running | Returned | Raised) are the state threaded through `fold_left` for each loop:
+#     `continue` ends the step with Running, `return` with Returned (the remaining iterations and statements are
+#     skipped), an operation that raises in Python (d[k] / d.pop(k) on an absent key, deserialising too few
+#     bytes) with Raised.
+CFG_STATE = ["ezsp_config", "ezsp_values", "trace", "flow"]
+CFG_RECORDS = {
+    # python field -> (coq projections, type)
+    "RuntimeConfig": [("config_id", ["rc_config_id"], "cid"), ("value", ["rc_value"], "N"), ("minimum", ["rc_minimum"], "bool")],
+    "ValueConfig": [("value_id", ["vc_value_id"], "vid"), ("value", ["vc_value", "vc_width"], "zint")],
+}
+CFG_LOCAL_DICTS = {"ezsp_config": ("dict", "cname", "RuntimeConfig"), "ezsp_values": ("dict", "vname", "ValueConfig")}
+CFG_AWAITS = {
+    # command -> (keyword names, their types, oracle field, trace constructor, result types)
+    "getValue": (["valueId"], ["vid"], "ans_getValue", "CGetValue", ["status", "bytes"]),
+    "setValue": (["valueId", "value"], ["vid", "serialized"], "ans_setValue", "CSetValue", ["status"]),
+    "getConfigurationValue": (["configId"], ["cid"], "ans_getConfigurationValue", "CGetConfigurationValue", ["status", "N"]),
+    "setConfigurationValue": (["configId", "value"], ["cid", "N"], "ans_setConfigurationValue", "CSetConfigurationValue", ["status"]),
+}
+
+
+def _cfg_coqty(t) -> str:
+    simple = {"N": "N", "bool": "bool", "optN": "option N", "status": "status", "bytes": "list N", "cid": "N", "cname": "N",
+              "vid": "N", "vname": "N", "RuntimeConfig": "RuntimeConfig", "ValueConfig": "ValueConfig", "default_cfg": "default_cfg",
+              "ncp": "ncp"}
+    if isinstance(t, tuple) and t[0] == "dict":
+        return f"dict ({_cfg_coqty(t[2])})"
+    if isinstance(t, tuple) and t[0] == "set":
+        return "list N"
+    if t in simple:
+        return simple[t]
+    raise KeyError(t)
+
+
+class CfgTr:
+    def __init__(self, where, enums, defaults):
+        self.where = where
+        self.enums = enums            # {"EzspConfigId": enum class, "EzspValueId": enum class}
+        self.defaults = defaults      # dataclass defaults: {"RuntimeConfig": {"minimum": False}, ...}
+        self.types = {}
+        self.defs = []                # emitted step functions
+        self.loops = {}               # id(ast.For) -> (name, free variables, types at entry)
+        self.ngen = 0
+        self.pending = None
+
+    def refuse(self, node, why="unsupported construct"):
+        src = ast.unparse(node) if isinstance(node, ast.AST) else str(node)
+        raise GenError(self.where, f"{why}: `{src[:110]}`")
+
+    def fresh(self):
+        self.ngen += 1
+        return f"g{self.ngen}"
+
+    # ---- control-flow results ----------------------------------------------------------------------
+    def out(self, loop: bool, flow: str) -> str:
+        return f"({', '.join(CFG_STATE[:3])}, {flow})" if loop else f"(trace, {flow})"
+
+    # ---- expressions -> (term, type) ---------------------------------------------------------------
+    def enum_member(self, enum: str, member: str, node):
+        cls = self.enums[enum]
+        if member not in cls.__members__:
+            self.refuse(node, f"{enum} has no member {member}")
+        m = cls[member]
+        if m.name != member:
+            self.refuse(node, f"{member} is an alias of {m.name}")
+        if enum == "EzspConfigId" and member == "CONFIG_PACKET_BUFFER_COUNT":
+            return "CONFIG_PACKET_BUFFER_COUNT"       # the constant of gen/GenConfig.v (same live enum)
+        return f"{int(m)} (* {enum}.{member} *)"
+
+    def key_of(self, d):
+        return self.types[d][1]
+
+    def ex(self, e):
+        if isinstance(e, ast.Name):
+            if e.id in self.types and e.id not in ("o",):
+                return e.id, self.types[e.id]
+            self.refuse(e, "unknown name")
+        if isinstance(e, ast.Constant):
+            if e.value is None:
+                return "None", "none"
+            if isinstance(e.value, bool):
+                return ("true" if e.value else "false"), "bool"
+            if isinstance(e.value, int) and e.value >= 0:
+                return str(e.value), "N"
+            self.refuse(e, "constant")
+        if isinstance(e, ast.Attribute):
+            src = ast.unparse(e)
+            parts = src.split(".")
+            if len(parts) in (3, 4) and parts[0] == "t" and parts[1] in self.enums and (len(parts) == 3 or parts[3] == "name"):
+                term = self.enum_member(parts[1], parts[2], e)
+                kind = "c" if parts[1] == "EzspConfigId" else "v"
+                return term, kind + ("id" if len(parts) == 3 else "name")
+            term, ty = self.ex(e.value)
+            if e.attr == "name" and ty in ("cid", "vid"):
+                return term, ty[0] + "name"           # the name stands for the member (one-to-one, checked by the generator)
+            if ty in CFG_RECORDS:
+                for pyf, projs, fty in CFG_RECORDS[ty]:
+                    if pyf == e.attr:
+                        if fty == "zint":
+                            return term, ("zint", term)
+                        return f"({projs[0]} {term})", fty
+                self.refuse(e, f"{ty} has no field {e.attr}")
+            self.refuse(e, "attribute")
+        if isinstance(e, ast.Subscript):
+            base = ast.unparse(e.value)
+            if base in ("t.EzspConfigId", "t.EzspValueId"):
+                term, ty = self.ex(e.slice)
+                want = "cname" if base.endswith("ConfigId") else "vname"
+                if ty != want:
+                    self.refuse(e, f"enum lookup by a {ty}")
+                return term, want[0] + "id"
+            if isinstance(e.value, ast.Name) and isinstance(self.types.get(e.value.id), tuple) and self.types[e.value.id][0] == "dict":
+                d = e.value.id
+                kterm, kty = self.ex(e.slice)
+                if kty != self.key_of(d):
+                    self.refuse(e, f"dict keyed by {self.key_of(d)} subscripted with a {kty}")
+                g = self.fresh()
+                self.pending.append(("get", g, d, kterm))
+                return g, self.types[d][2]
+            self.refuse(e, "subscript")
+        if isinstance(e, ast.Call):
+            fn = ast.unparse(e.func)
+            kw = {k.arg: k.value for k in e.keywords}
+            if fn == "set" and len(e.args) == 1 and not kw and isinstance(e.args[0], ast.Name):
+                term, ty = self.ex(e.args[0])
+                if not (isinstance(ty, tuple) and ty[0] == "dict"):
+                    self.refuse(e, "set() of something other than a dict")
+                return f"(dict_keys {term})", ("set", ty[1])
+            if fn == "self._protocol.SCHEMAS[conf.CONF_EZSP_CONFIG]" and len(e.args) == 1 and not kw:
+                term, ty = self.ex(e.args[0])
+                if ty != ("dict", "cname", "optN"):
+                    self.refuse(e, "schema applied to something other than the config dict")
+                return f"(py_schema_validate SCHEMA_v {term})", ty
+            if fn == "dataclasses.replace" and len(e.args) == 1:
+                bterm, bty = self.ex(e.args[0])
+                if bty not in CFG_RECORDS:
+                    self.refuse(e, "dataclasses.replace of a non-record")
+                return self.record(bty, kw, lambda proj: f"{proj} {bterm}", e), bty
+            if fn in CFG_RECORDS and not e.args:
+                return self.record(fn, kw, None, e), fn
+            if isinstance(e.func, ast.Attribute) and e.func.attr == "pop" and isinstance(e.func.value, ast.Name) \
+                    and isinstance(self.types.get(e.func.value.id), tuple) and self.types[e.func.value.id][0] == "dict" \
+                    and len(e.args) == 1 and not kw:
+                d = e.func.value.id
+                kterm, kty = self.ex(e.args[0])
+                if kty != self.key_of(d):
+                    self.refuse(e, f"dict keyed by {self.key_of(d)} popped with a {kty}")
+                g = self.fresh()
+                self.pending.append(("pop", g, d, kterm))
+                return g, self.types[d][2]
+            self.refuse(e, "call")
+        if isinstance(e, ast.UnaryOp) and isinstance(e.op, ast.Not):
+            return f"(negb {self.cond(e.operand)})", "bool"
+        if isinstance(e, ast.BoolOp):
+            op = " && " if isinstance(e.op, ast.And) else " || "
+            return "(" + op.join(self.cond(v) for v in e.values) + ")", "bool"
+        if isinstance(e, ast.Compare):
+            if len(e.ops) != 1:
+                self.refuse(e, "chained comparison")
+            op, lhs, rhs = e.ops[0], e.left, e.comparators[0]
+            # t.sl_Status.from_ember_status(status) ==/!= t.sl_Status.OK
+            if isinstance(op, (ast.Eq, ast.NotEq)) and ast.unparse(rhs) == "t.sl_Status.OK" and isinstance(lhs, ast.Call) \
+                    and ast.unparse(lhs.func) == "t.sl_Status.from_ember_status" and len(lhs.args) == 1 and not lhs.keywords:
+                term, ty = self.ex(lhs.args[0])
+                if ty != "status":
+                    self.refuse(e, "status test of a non-status")
+                t = f"(py_status_ok {term})"
+                return (t if isinstance(op, ast.Eq) else f"(negb {t})"), "bool"
+            if isinstance(op, (ast.In, ast.NotIn)):
+                kterm, kty = self.ex(lhs)
+                cterm, cty = self.ex(rhs)
+                if not (isinstance(cty, tuple) and cty[0] in ("dict", "set")):
+                    self.refuse(e, "membership in something other than a dict / set")
+                if cty[1] != kty:
+                    self.refuse(e, f"membership of a {kty} in a container of {cty[1]}")
+                t = f"({'dict_mem' if cty[0] == 'dict' else 'set_mem'} {kterm} {cterm})"
+                return (t if isinstance(op, ast.In) else f"(negb {t})"), "bool"
+            cmpops = {ast.Lt: "{a} <? {b}", ast.LtE: "{a} <=? {b}", ast.Gt: "{b} <? {a}", ast.GtE: "{b} <=? {a}",
+                      ast.Eq: "{a} =? {b}", ast.NotEq: "negb ({a} =? {b})"}
+            if type(op) in cmpops:
+                a, aty = self.ex(lhs)
+                b, bty = self.ex(rhs)
+                if aty != "N" or bty != "N":
+                    self.refuse(e, f"comparison of {aty} with {bty}")
+                return "(" + cmpops[type(op)].format(a=a, b=b) + ")", "bool"
+            self.refuse(e, "comparison operator")
+        self.refuse(e)
+
+    def cond(self, e) -> str:
+        n = len(self.pending) if self.pending is not None else 0
+        if self.pending is None:
+            self.pending = []
+        term, ty = self.ex(e)
+        if len(self.pending) != n:
+            self.refuse(e, "an operation that may raise inside a condition")
+        if ty != "bool":
+            self.refuse(e, f"truth value of a {ty}")
+        return term
+
+    def record(self, cls, kw, base_proj, node) -> str:
+        fields = CFG_RECORDS[cls]
+        unknown = set(kw) - {f for f, _, _ in fields}
+        if unknown or None in kw:
+            self.refuse(node, f"unknown field(s) {sorted(map(str, unknown))}")
+        items = []
+        for pyf, projs, fty in fields:
+            if pyf in kw:
+                term, ty = self.ex(kw[pyf])
+                if fty == "zint" or ty != fty:
+                    self.refuse(node, f"field {pyf} ({fty}) given a {ty}")
+                items.append(f"{projs[0]} := {term}")
+            elif base_proj is not None:
+                items += [f"{p} := {base_proj(p)}" for p in projs]
+            else:
+                dflt = self.defaults[cls].get(pyf, ...)
+                if dflt is ... or not isinstance(dflt, (bool, int)) or fty not in ("bool", "N"):
+                    self.refuse(node, f"field {pyf} has no usable default")
+                items.append(f"{projs[0]} := {('true' if dflt else 'false') if isinstance(dflt, bool) else int(dflt)}")
+        return "{| " + "; ".join(items) + " |}"
+
+    # ---- statements --------------------------------------------------------------------------------
+    def branch(self, body, loop, **bind):
+        saved = dict(self.types)
+        self.types.update(bind)
+        try:
+            return self.stmts(body, loop)
+        finally:
+            self.types = saved
+
+    def wrap_pending(self, pending, code: str, loop: bool) -> str:
+        for kind, g, d, k in reversed(pending):
+            inner = code if kind == "get" else f"let {d} := dict_pop {k} {d} in\n{code}"
+            code = (f"match dict_get {k} {d} with\n| None => {self.out(loop, 'Raised')}   (* KeyError *)\n"
+                    f"| Some {g} =>\n{textwrap.indent(inner, '    ')}\nend")
+        return code
+
+    def stmts(self, body, loop) -> str:
+        if not body:
+            return self.out(loop, "Running") if loop else self.out(loop, "Returned")
+        s, rest = body[0], body[1:]
+        if isinstance(s, ast.Pass):
+            return self.stmts(rest, loop)
+        if isinstance(s, ast.Continue):
+            if not loop:
+                self.refuse(s, "continue outside a loop")
+            return self.out(True, "Running") + "   (* continue: on to the next element *)"
+        if isinstance(s, ast.Return):
+            if s.value is not None and not (isinstance(s.value, ast.Constant) and s.value.value is None):
+                self.refuse(s, "return value")
+            return self.out(loop, "Returned") + "   (* return *)"
+        if isinstance(s, ast.If):
+            return self.if_(s, rest, loop)
+        if isinstance(s, ast.For):
+            if loop:
+                self.refuse(s, "nested loop")
+            return self.for_(s, rest)
+        if isinstance(s, ast.Expr) and isinstance(s.value, ast.Call):
+            c = s.value
+            # d.pop(k, None): removal that never raises
+            if isinstance(c.func, ast.Attribute) and c.func.attr == "pop" and isinstance(c.func.value, ast.Name) \
+                    and isinstance(self.types.get(c.func.value.id), tuple) and self.types[c.func.value.id][0] == "dict" \
+                    and len(c.args) == 2 and not c.keywords and isinstance(c.args[1], ast.Constant) and c.args[1].value is None:
+                d = c.func.value.id
+                self.pending = []
+                kterm, kty = self.ex(c.args[0])
+                if self.pending or kty != self.key_of(d):
+                    self.refuse(s, "pop key")
+                self.pending = None
+                return f"let {d} := dict_pop {kterm} {d} in\n{self.stmts(rest, loop)}"
+            self.refuse(s, "call statement")
+        if isinstance(s, ast.Assign):
+            if len(s.targets) != 1:
+                self.refuse(s, "multiple targets")
+            return self.assign(s, s.targets[0], rest, loop)
+        self.refuse(s)
+
+    def if_(self, s, rest, loop):
+        t = s.test
+        if isinstance(t, ast.Compare) and len(t.ops) == 1 and isinstance(t.ops[0], ast.Is) and isinstance(t.left, ast.Name) \
+                and isinstance(t.comparators[0], ast.Constant) and t.comparators[0].value is None:
+            x = t.left.id
+            if self.types.get(x) != "optN":
+                self.refuse(t, f"`is None` on a {self.types.get(x)}")
+            a = self.branch(list(s.body) + rest, loop, **{x: "none"})
+            b = self.branch(list(s.orelse) + rest, loop, **{x: "N"})
+            return f"match {x} with\n| None =>\n{textwrap.indent(a, '    ')}\n| Some {x} =>\n{textwrap.indent(b, '    ')}\nend"
+        if isinstance(t, ast.Call) and ast.unparse(t.func) == "isinstance" and len(t.args) == 2 and not t.keywords \
+                and isinstance(t.args[0], ast.Name) and isinstance(t.args[1], ast.Name):
+            x, cls = t.args[0].id, t.args[1].id
+            if self.types.get(x) != "default_cfg" or cls not in CFG_RECORDS:
+                self.refuse(t, "isinstance test")
+            a = self.branch(list(s.body) + rest, loop, **{x: cls})
+            b = self.branch(list(s.orelse) + rest, loop)
+            return f"match {x} with\n| Is{cls} {x} =>\n{textwrap.indent(a, '    ')}\n| _ =>\n{textwrap.indent(b, '    ')}\nend"
+        c = self.cond(t)
+        self.pending = None
+        a = self.branch(list(s.body) + rest, loop)
+        b = self.branch(list(s.orelse) + rest, loop)
+        return f"if {c} then\n{textwrap.indent(a, '  ')}\nelse\n{textwrap.indent(b, '  ')}"
+
+    def assign(self, s, tgt, rest, loop):
+        v = s.value
+        if isinstance(v, ast.Await):
+            return self.await_(s, tgt, v.value, rest, loop)
+        # current_value, _ = type(cfg.value).deserialize(current_value)
+        if isinstance(tgt, ast.Tuple) and isinstance(v, ast.Call) and isinstance(v.func, ast.Attribute) and v.func.attr == "deserialize" \
+                and isinstance(v.func.value, ast.Call) and ast.unparse(v.func.value.func) == "type" and len(v.func.value.args) == 1 \
+                and len(v.args) == 1 and not v.keywords and len(tgt.elts) == 2 and all(isinstance(x, ast.Name) for x in tgt.elts):
+            self.pending = []
+            zt, zty = self.ex(v.func.value.args[0])
+            dt, dty = self.ex(v.args[0])
+            if self.pending or not (isinstance(zty, tuple) and zty[0] == "zint") or dty != "bytes":
+                self.refuse(s, "deserialize form")
+            self.pending = None
+            a, b = (x.id for x in tgt.elts)
+            if a in CFG_STATE or b in CFG_STATE:
+                self.refuse(s, "assignment to a state variable")
+            body = self.branch(rest, loop, **{a: "N", b: "bytes"})
+            return (f"match py_int_deserialize (vc_width {zt}) {dt} with\n| None => {self.out(loop, 'Raised')}   (* ValueError: data too short *)\n"
+                    f"| Some ({a}, {b}) =>\n{textwrap.indent(body, '    ')}\nend")
+        if isinstance(tgt, ast.Name):
+            name = tgt.id
+            if name in ("trace", "flow", "o", "SCHEMA_v", "DEFAULT_CONFIG_v"):
+                self.refuse(s, "reserved name")
+            if isinstance(v, ast.Dict) and not v.keys:
+                if name not in CFG_LOCAL_DICTS:
+                    self.refuse(s, "an empty dict whose use is not known")
+                ty = CFG_LOCAL_DICTS[name]
+                return f"let {name} := @nil (N * {_cfg_coqty(ty[2])}) in\n{self.branch(rest, loop, **{name: ty})}"
+            self.pending = []
+            term, ty = self.ex(v)
+            if name in CFG_LOCAL_DICTS and ty != CFG_LOCAL_DICTS[name]:
+                self.refuse(s, "state variable changes type")
+            if ty == "none":
+                term, ty = "@None N", "none"
+            elif isinstance(ty, tuple) and ty[0] == "zint":
+                self.refuse(s, "a zigpy integer object as a local")
+            pend, self.pending = self.pending, None
+            code = f"let {name} := {term} in\n{self.branch(rest, loop, **{name: ty})}"
+            return self.wrap_pending(pend, code, loop)
+        if isinstance(tgt, ast.Subscript) and isinstance(tgt.value, ast.Name) and isinstance(self.types.get(tgt.value.id), tuple) \
+                and self.types[tgt.value.id][0] == "dict":
+            d = tgt.value.id
+            self.pending = []
+            kterm, kty = self.ex(tgt.slice)
+            if self.pending or kty != self.key_of(d):
+                self.refuse(s, f"dict keyed by {self.key_of(d)} assigned under a {kty}")
+            vterm, vty = self.ex(v)          # Python evaluates the right-hand side first; the key expression is pure
+            if vty != self.types[d][2]:
+                self.refuse(s, f"dict of {self.types[d][2]} assigned a {vty}")
+            pend, self.pending = self.pending, None
+            code = f"let {d} := dict_set {kterm} {vterm} {d} in\n{self.stmts(rest, loop)}"
+            return self.wrap_pending(pend, code, loop)
+        self.refuse(s, "assignment target")
+
+    def await_(self, s, tgt, call, rest, loop):
+        if not (isinstance(call, ast.Call) and isinstance(call.func, ast.Attribute) and isinstance(call.func.value, ast.Name)
+                and call.func.value.id == "self" and call.func.attr in CFG_AWAITS and not call.args):
+            self.refuse(s, "awaited expression")
+        names, tys, oracle, ctor, results = CFG_AWAITS[call.func.attr]
+        kw = {k.arg: k.value for k in call.keywords}
+        if sorted(kw, key=str) != sorted(names):
+            self.refuse(s, f"arguments of {call.func.attr}")
+        self.pending = []
+        args = []
+        for n, want in zip(names, tys):
+            e = kw[n]
+            if want == "serialized":
+                if not (isinstance(e, ast.Call) and isinstance(e.func, ast.Attribute) and e.func.attr == "serialize" and not e.args and not e.keywords):
+                    self.refuse(e, "expected <value>.serialize()")
+                term, ty = self.ex(e.func.value)
+                if not (isinstance(ty, tuple) and ty[0] == "zint"):
+                    self.refuse(e, "serialize() of something other than a ValueConfig value")
+                args += [f"(vc_value {term})", f"(vc_width {term})"]
+            else:
+                term, ty = self.ex(e)
+                if ty != want:
+                    self.refuse(e, f"argument {n} ({want}) given a {ty}")
+                args.append(term)
+        if self.pending:
+            self.refuse(s, "an operation that may raise inside a command's arguments")
+        self.pending = None
+        elts = list(tgt.elts) if isinstance(tgt, ast.Tuple) else None
+        if elts is None or len(elts) != len(results) or not all(isinstance(x, ast.Name) for x in elts):
+            self.refuse(s, f"unpacking of the {len(results)}-field response of {call.func.attr}")
+        vs = [x.id for x in elts]
+        if any(x in CFG_STATE or x == "o" for x in vs) or len(set(vs)) != len(vs):
+            self.refuse(s, "response assigned to a state variable")
+        a = " ".join(args)
+        pat = f"'({', '.join(vs)})" if len(vs) > 1 else vs[0]
+        body = self.branch(rest, loop, **dict(zip(vs, results)))
+        return (f"let {pat} := {oracle} o trace {a} in   (* await self.{call.func.attr} *)\n"
+                f"let trace := trace ++ [{ctor} {a}] in\n{body}")
+
+    def for_(self, s, rest):
+        if s.orelse:
+            self.refuse(s, "for ... else")
+        for d in ("ezsp_config", "ezsp_values"):
+            if d not in self.types:
+                self.refuse(s, f"loop before {d} is initialised")
+        it = s.iter
+        bind, pat = {}, None
+        if ast.unparse(it) == "DEFAULT_CONFIG[self._protocol.VERSION]" and isinstance(s.target, ast.Name):
+            iter_term, elem = "DEFAULT_CONFIG_v", "default_cfg"
+            bind[s.target.id] = "default_cfg"
+            x = s.target.id
+        elif isinstance(it, ast.Call) and isinstance(it.func, ast.Attribute) and it.func.attr in ("values", "items") and not it.args \
+                and not it.keywords and isinstance(it.func.value, ast.Name) and isinstance(self.types.get(it.func.value.id), tuple) \
+                and self.types[it.func.value.id][0] == "dict":
+            d = it.func.value.id
+            _, kty, vty = self.types[d]
+            # Python raises RuntimeError when a dict changes size during iteration: the fold runs over the dict as it
+            # is at loop entry, so the body must leave it alone
+            for n in ast.walk(ast.Module(body=list(s.body), type_ignores=[])):
+                if (isinstance(n, ast.Subscript) and isinstance(n.ctx, (ast.Store, ast.Del)) and ast.unparse(n.value) == d) \
+                        or (isinstance(n, ast.Call) and isinstance(n.func, ast.Attribute) and ast.unparse(n.func.value) == d
+                            and n.func.attr not in ("get", "values", "items", "keys")) \
+                        or (isinstance(n, ast.Name) and n.id == d and isinstance(n.ctx, (ast.Store, ast.Del))):
+                    self.refuse(n, f"the loop body changes {d}, the dict it iterates over")
+            if it.func.attr == "values":
+                if not isinstance(s.target, ast.Name):
+                    self.refuse(s.target, "loop target")
+                iter_term, elem, x = f"(dict_values {d})", _cfg_coqty(vty), s.target.id
+                bind[x] = vty
+            else:
+                if not (isinstance(s.target, ast.Tuple) and len(s.target.elts) == 2 and all(isinstance(e, ast.Name) for e in s.target.elts)):
+                    self.refuse(s.target, "loop target")
+                a, b = (e.id for e in s.target.elts)
+                iter_term, elem, x = f"(dict_items {d})", f"N * {_cfg_coqty(vty)}", "item"
+                pat = f"let '({a}, {b}) := item in\n"
+                bind[a], bind[b] = kty, vty
+        else:
+            self.refuse(it, "loop iterable")
+        if any(k in CFG_STATE or k == "o" for k in bind):
+            self.refuse(s.target, "loop target shadows a state variable")
+        key = id(s)
+        if key not in self.loops:
+            used = {n.id for st in s.body for n in ast.walk(st) if isinstance(n, ast.Name)}
+            free = [n for n in self.types if n in used and n not in CFG_STATE and n not in bind and n != "o"]
+            if any(isinstance(n, ast.Await) for st in s.body for n in ast.walk(st)):
+                free = ["o"] + free
+            if "'SCHEMAS'" in ast.dump(ast.Module(body=list(s.body), type_ignores=[])):
+                self.refuse(s, "schema use inside a loop")
+            name = f"py_write_config_for{len(self.loops) + 1}"
+            entry_types = {n: self.types[n] for n in free + CFG_STATE[:2]}
+            self.loops[key] = (name, free, entry_types)
+            body = self.branch(list(s.body), True, **bind)
+            sig = "".join(f" ({n} : {_cfg_coqty(self.types[n])})" for n in free)
+            self.defs.append(
+                f"(* the body of `for {ast.unparse(s.target)} in {ast.unparse(it)}:` *)\n"
+                f"Definition {name}{sig} (s : wc_state) ({x} : {elem}) : wc_state :=\n"
+                f"  let '({', '.join(CFG_STATE)}) := s in\n"
+                f"  match flow with\n  | Running =>\n{textwrap.indent((pat or '') + body, '      ')}\n"
+                f"  | _ => s   (* the function has returned / raised: nothing more is executed *)\n  end.\n\n")
+        name, free, entry_types = self.loops[key]
+        if entry_types != {n: self.types.get(n) for n in entry_types}:
+            self.refuse(s, "the loop is reached with different variable types on different paths")
+        after = self.stmts(rest, False)
+        return (f"let '({', '.join(CFG_STATE)}) :=\n  fold_left ({name}{''.join(' ' + n for n in free)}) {iter_term} ({', '.join(CFG_STATE[:3])}, Running) in\n"
+                f"match flow with\n| Running =>\n{textwrap.indent(after, '    ')}\n| _ => (trace, flow)\nend")
+
+
+CFG_PRELUDE = """(* GENERATED by harness/pysrc.py from the SOURCE TEXT of EZSP.write_config (bellows/ezsp/__init__.py) -- do not edit *)
+From Coq Require Import NArith List Bool.
+Import ListNotations.
+Require Import BV.lib.PyDict BV.gen.GenConfig BV.gen.GenStatus BV.model.Status.
+Open Scope N_scope.
+
+(* Conventions (see harness/pysrc.py, CfgTr):
+   - dicts are association lists with Python's semantics (lib/PyDict.v); an enum member and its name are both the
+     numeric id (the generator checked that this is one-to-one for every name involved);
+   - the dataclasses of bellows/ezsp/config.py are the records below; ValueConfig.value is a fixed-width zigpy
+     integer, kept as its little-endian number and its width in bytes (what .serialize() writes);
+   - an element of DEFAULT_CONFIG[version] is one of the two: isinstance is the match on the constructor;
+   - every awaited command takes the NCP's answer from the oracle [o : ncp], which sees all commands issued so far,
+     and is appended to [trace];
+   - [flow]: Running while statements execute, Returned after `return` / the end of the function, Raised when a
+     statement raises (no handler in write_config: the coroutine ends there). *)
+Record RuntimeConfig := { rc_config_id : N; rc_value : N; rc_minimum : bool }.
+Record ValueConfig := { vc_value_id : N; vc_value : N; vc_width : N }.
+Inductive default_cfg := IsRuntimeConfig (c : RuntimeConfig) | IsValueConfig (c : ValueConfig).
+
+(* a row of gen/GenConfig.v's DEFAULT_CONFIG: (is_value, id, value, minimum, width) *)
+Definition cfg_of_row (x : bool * N * N * bool * N) : default_cfg :=
+  match x with
+  | (false, id, val, mn, _) => IsRuntimeConfig {| rc_config_id := id; rc_value := val; rc_minimum := mn |}
+  | (true, id, val, _, w) => IsValueConfig {| vc_value_id := id; vc_value := val; vc_width := w |}
+  end.
+
+Inductive cmd :=
+| CGetValue (valueId : N)
+| CSetValue (valueId value width : N)
+| CGetConfigurationValue (configId : N)
+| CSetConfigurationValue (configId value : N).
+
+(* a status as the NCP returns it: (family, code); EzspStatus on old protocol versions, sl_Status on new ones *)
+Definition status := (family * N)%type.
+(* t.sl_Status.from_ember_status(status) == t.sl_Status.OK *)
+Definition py_status_ok (s : status) : bool := normalise (fst s) (snd s) =? sl_OK.
+
+(* the NCP's answers; the first argument is the list of commands issued before this one *)
+Record ncp := {
+  ans_getValue : list cmd -> N -> status * list N;
+  ans_setValue : list cmd -> N -> N -> N -> status;
+  ans_getConfigurationValue : list cmd -> N -> status * N;
+  ans_setConfigurationValue : list cmd -> N -> N -> status }.
+
+Inductive flow_t := Running | Returned | Raised.
+Definition wc_state := (dict RuntimeConfig * dict ValueConfig * list cmd * flow_t)%type.
+
+(* zigpy FixedIntType.deserialize (checked by the generator to be the codec of every ValueConfig value):
+   ValueError when fewer than [width] bytes are given, else (little-endian value, remaining bytes) *)
+Definition le_num (l : list N) : N := fold_right (fun b acc => b + 256 * acc) 0 l.
+Definition py_int_deserialize (width : N) (data : list N) : option (N * list N) :=
+  if N.of_nat (List.length data) <? width then None
+  else Some (le_num (firstn (N.to_nat width) data), skipn (N.to_nat width) data).
+
+(* the voluptuous schema SCHEMAS[CONF_EZSP_CONFIG] applied to a dict of valid keys: the caller's items in their order,
+   then the schema's default for every key the caller did not give (contract of the external library; the generator
+   re-checks it on the live schemas, the C16 correspondence on every case) *)
+Definition py_schema_validate (defaults : list (N * N)) (config : dict (option N)) : dict (option N) :=
+  config ++ map (fun kv => (fst kv, Some (snd kv))) (filter (fun kv => negb (dict_mem (fst kv) config)) defaults).
+
+"""
+
+
+def gen_config_fn() -> str:
+    import dataclasses as dc
+
+    import bellows.config as bconf
+    import bellows.ezsp as E
+    import bellows.ezsp.config as cfgmod
+    import bellows.types as t
+    import voluptuous as vol
+    import zigpy.types.basic as zb
+
+    where = "EZSP.write_config (source)"
+    # ---- the live objects the emitted code talks about
+    if E.RuntimeConfig is not cfgmod.RuntimeConfig or E.ValueConfig is not cfgmod.ValueConfig or E.DEFAULT_CONFIG is not cfgmod.DEFAULT_CONFIG:
+        raise GenError(where, "RuntimeConfig / ValueConfig / DEFAULT_CONFIG of bellows.ezsp are not those of bellows.ezsp.config")
+    if getattr(E, "dataclasses", None) is not dc or E.t is not t or E.conf is not bconf:
+        raise GenError(where, "module aliases dataclasses / t / conf")
+    defaults = {}
+    for cls, want in ((cfgmod.RuntimeConfig, ["config_id", "value", "minimum"]), (cfgmod.ValueConfig, ["value_id", "value"])):
+        fs = dc.fields(cls)
+        if [f.name for f in fs] != want:
+            raise GenError(cls.__name__, f"fields {[f.name for f in fs]}, expected {want}")
+        defaults[cls.__name__] = {f.name: f.default for f in fs if f.default is not dc.MISSING}
+    if defaults != {"RuntimeConfig": {"minimum": False}, "ValueConfig": {}}:
+        raise GenError("RuntimeConfig / ValueConfig", f"field defaults {defaults}")
+    # ---- names stand for ids: every name used as a key must be the canonical name of its member
+    for v in sorted(E.EZSP._BY_VERSION):
+        if v not in cfgmod.DEFAULT_CONFIG:
+            continue
+        for c in cfgmod.DEFAULT_CONFIG[v]:
+            if isinstance(c, cfgmod.RuntimeConfig):
+                if t.EzspConfigId[c.config_id.name].name != c.config_id.name:
+                    raise GenError(f"DEFAULT_CONFIG[{v}]", f"{c.config_id.name} is an alias in EzspConfigId")
+            elif isinstance(c, cfgmod.ValueConfig):
+                if t.EzspValueId[c.value_id.name].name != c.value_id.name:
+                    raise GenError(f"DEFAULT_CONFIG[{v}]", f"{c.value_id.name} is an alias in EzspValueId")
+                ty = type(c.value)
+                if not (isinstance(c.value, zb.FixedIntType) and getattr(ty.deserialize, "__func__", None) is zb.FixedIntType.deserialize.__func__
+                        and getattr(ty, "_signed", True) is False and len(c.value.serialize()) == ty._size):
+                    raise GenError(f"DEFAULT_CONFIG[{v}]", f"value of {c.value_id.name} is not an unsigned fixed-width zigpy integer")
+        sch = E.EZSP._BY_VERSION[v].SCHEMAS[bconf.CONF_EZSP_CONFIG]
+        keys = [(k.schema if isinstance(k, vol.Marker) else k) for k in sch.schema]
+        for k in keys:
+            if t.EzspConfigId[k].name != k:
+                raise GenError(f"v{v} schema key {k}", "is an alias in EzspConfigId")
+        # the stated contract of the schema (py_schema_validate), re-checked on a sample
+        base = sch({})
+        if len(keys) >= 2:
+            try:
+                given = {keys[-1]: None, keys[0]: None}
+                got = sch(dict(given))
+            except Exception as e:   # noqa
+                raise GenError(f"v{v} schema", f"does not accept None for {keys[-1]} / {keys[0]}: {e!r}")
+            want_items = list(given.items()) + [(k, val) for k, val in base.items() if k not in given]
+            if list(got.items()) != want_items:
+                raise GenError(f"v{v} schema", f"output order / defaults differ from the contract: {list(got.items())} vs {want_items}")
+    # ---- response arities the unpacking statements rely on
+    for v, cls in E.EZSP._BY_VERSION.items():
+        for name, (_, _, _, _, results) in CFG_AWAITS.items():
+            rx = cls.COMMANDS[name][2]
+            if len(rx) != len(results):
+                raise GenError(f"v{v}.{name}", f"response has {len(rx)} fields, the translation assumes {len(results)}")
+    # ---- the function
+    fn = E.EZSP.__dict__["write_config"]
+    node = _StripLogs().visit(_fn_ast_async(fn))
+    a = node.args
+    if [x.arg for x in a.args] != ["self", "config"] or a.vararg or a.kwarg or a.kwonlyargs or a.posonlyargs or node.decorator_list:
+        raise GenError(where, "signature")
+    tr = CfgTr(where, {"EzspConfigId": t.EzspConfigId, "EzspValueId": t.EzspValueId}, defaults)
+    tr.types = {"o": "ncp", "config": ("dict", "cname", "optN")}
+    term = tr.stmts(list(node.body), False)
+    out = [CFG_PRELUDE]
+    out += tr.defs
+    out.append("(* from the source of EZSP.write_config; DEFAULT_CONFIG_v = DEFAULT_CONFIG[self._protocol.VERSION],\n"
+               "   SCHEMA_v = the defaults of self._protocol.SCHEMAS[CONF_EZSP_CONFIG]; result: commands issued, how it ended *)\n"
+               "Definition py_write_config_body (DEFAULT_CONFIG_v : list default_cfg) (SCHEMA_v : list (N * N)) (o : ncp)\n"
+               "    (config : dict (option N)) : list cmd * flow_t :=\n"
+               "  let trace := @nil cmd in\n" + textwrap.indent(term, "  ") + ".\n\n")
+    out.append("(* the two per-version lookups (a missing version is a KeyError before anything is sent) *)\n"
+               "Definition py_write_config (v : N) (o : ncp) (config : dict (option N)) : option (list cmd * flow_t) :=\n"
+               "  match dict_get v DEFAULT_CONFIG, dict_get v SCHEMA_DEFAULTS with\n"
+               "  | Some rows, Some sd => Some (py_write_config_body (map cfg_of_row rows) sd o config)\n"
+               "  | _, _ => None\n  end.\n")
+    return "".join(out)
+
+
+
+
+# ==================================================================================================
+# ControllerApplication.ezsp_callback_handler / _handle_frame / _handle_tc_join_handler (C13):
+# the callback's `args` tuple lives over the FLAT decoded values of the frame (element k = the k-th field
+# of the callback's generated field list, GenCallbacks.CB_FIELDS); Python variables bound by the tuple
+# unpacking are element indices; a handler's parameters are the values its body reads, read by the caller.
+# ==================================================================================================
+APP_PREAMBLE = """\
+(* GENERATED by harness/pysrc.py from the SOURCE TEXT of ControllerApplication.ezsp_callback_handler, _handle_frame,
+   _handle_tc_join_handler and _handle_frame_sent (bellows/zigbee/application.py) -- do not edit *)
+From Coq Require Import String ZArith NArith List Bool.
+Import ListNotations.
+Require Import BV.lib.EzspTypes BV.gen.GenCallbacks BV.gen.GenStatus BV.model.Status BV.model.Translate.
+Open Scope N_scope.
+
+(* the callback's args tuple over the flat decoded values of the frame: element k is the k-th field of the callback's
+   field list (name, first flat item, number of flat items) *)
+Definition py_args := (list (string * nat * nat) * list ival)%type.
+Definition args_len (A : py_args) : nat := List.length (fst A).
+Definition arg_at (A : py_args) (k : nat) : option (nat * nat) :=
+  match nth_error (fst A) k with Some (_, s, c) => Some (s, c) | None => None end.
+Definition arg_int (A : py_args) (k : nat) : option Z :=
+  match arg_at A k with Some (s, _) => geti s (snd A) | None => None end.
+(* an element of an unsigned wire type (its decoded value is never negative) *)
+Definition arg_uint (A : py_args) (k : nat) : option N :=
+  match arg_int A k with Some z => Some (Z.to_N z) | None => None end.
+Definition arg_bytes (A : py_args) (k : nat) : option (list N) :=
+  match arg_at A k with Some (s, _) => getb s (snd A) | None => None end.
+Definition arg_rows (A : py_args) (k : nat) : option (list (list pval)) :=
+  match arg_at A k with Some (s, _) => getl s (snd A) | None => None end.
+Fixpoint index_of (x : string) (l : list string) : option nat :=
+  match l with
+  | [] => None
+  | y :: l' => if String.eqb x y then Some O else match index_of x l' with Some i => Some (S i) | None => None end
+  end.
+(* <element k>.<attr> for an EmberApsFrame element: the flat item at the attribute's position in the struct *)
+Definition arg_attr (A : py_args) (k : nat) (attr : string) : option Z :=
+  match arg_at A k, index_of attr APS_FRAME_FIELDS with
+  | Some (s, c), Some i => if (i <? c)%nat then geti (s + i) (snd A) else None
+  | _, _ => None
+  end.
+Definition obind {X Y : Type} (o : option X) (f : X -> option Y) : option Y :=
+  match o with Some x => f x | None => None end.
+
+(* what _handle_frame_sent does with the table of pending requests (C12) *)
+Inductive py_sent :=
+| PSetResult (key : N * N) (status : N) (text : string)   (* self._pending[key].result.set_result((status, text)) *)
+| PUnexpected                                             (* KeyError: no request is registered under the key *)
+| PDuplicate.                                             (* asyncio.InvalidStateError: its future is already resolved *)
+
+(* what one call of ezsp_callback_handler does, as far as C13 and C12 speak of it *)
+Inductive py_outcome :=
+| POut (r : option (list app_event))   (* a translated handler ran: the events handed to zigpy (packet_received / handle_join /
+                                          handle_leave), in order; None = the call raises on an ill-shaped args tuple *)
+| PSent (r : (N -> N -> option bool) -> option py_sent)   (* _handle_frame_sent ran: what it does given the table of pending
+                                          requests (key -> is the request's future resolved); None as above *)
+| PCalls (callees : list string)       (* a branch whose body is not translated here: the methods of self it calls *)
+| PNoBranch.                           (* no branch of the chain matches: nothing is done *)
+
+"""
+
+_MISSING = object()
+
+
+def _cmt(text: str) -> str:
+    """Python source quoted inside a Gallina comment: no comment delimiters, no string delimiters"""
+    return text.replace("(*", "( *").replace("*)", "* )").replace('"', "'")
+
+
+_COUNTER_INC = __import__("re").compile(r"^self\.state\.counters\[\w+\]\[[^\[\]]+\]\.increment\(\)$")
+
+
+def _resolve(ns: dict, node):
+    """object named by a dotted name in the namespace of the live module (no evaluation of anything else)"""
+    parts = []
+    while isinstance(node, ast.Attribute):
+        parts.append(node.attr)
+        node = node.value
+    if not isinstance(node, ast.Name) or node.id not in ns:
+        return _MISSING
+    obj = ns[node.id]
+    for p in reversed(parts):
+        obj = getattr(obj, p, _MISSING)
+        if obj is _MISSING:
+            return _MISSING
+    return obj
+
+
+class AppTr:
+    """body of a synchronous handler of ControllerApplication whose observable effects are calls of zigpy's
+    packet_received / handle_join / handle_leave.  `params`: name -> 'Z' | 'bytes' | 'rows' | 'struct'.  The values the
+    body reads (`p`, `p.attr` for a struct) are collected in `reads`, in order of first use: they become the parameters
+    of the emitted function.  Result of the emitted function: the list of events, in call order."""
+
+    PACKET_FIELDS = {"src_ep": "k_src_ep", "dst_ep": "k_dst_ep", "tsn": "k_tsn", "profile_id": "k_profile",
+                     "cluster_id": "k_cluster", "lqi": "k_lqi", "rssi": "k_rssi"}
+    RECORD_ORDER = ["k_src", "k_src_ep", "k_dst", "k_dst_ep", "k_tsn", "k_profile", "k_cluster", "k_data", "k_lqi", "k_rssi"]
+
+    def __init__(self, where, ns, params, struct_fields, ghosts=()):
+        import zigpy.types as zt
+        self.zt = zt
+        self.where, self.ns, self.params, self.struct_fields = where, ns, dict(params), struct_fields
+        self.locals = {}                # local name -> 'dest'
+        self.reads = []                 # (coq name, param, attr | None)
+        self.ignored = []               # statements skipped, for the header comment
+        self.ghosts = [_dump(g) for g in ghosts]
+
+    def refuse(self, node, why="unsupported construct"):
+        src = ast.unparse(node) if isinstance(node, ast.AST) else str(node)
+        raise GenError(self.where, f"{why}: `{src[:100]}`")
+
+    def use(self, param, attr=None):
+        name = param if attr is None else f"{param}_{attr}"
+        if (name, param, attr) not in self.reads:
+            self.reads.append((name, param, attr))
+        return name
+
+    # ---- expressions ---------------------------------------------------------------------------
+    def zexpr(self, e) -> str:
+        """an integer-valued expression"""
+        if isinstance(e, ast.Name):
+            if self.params.get(e.id) == "Z":
+                return self.use(e.id)
+            self.refuse(e, "not an integer parameter")
+        if isinstance(e, ast.Attribute):
+            if isinstance(e.value, ast.Name) and self.params.get(e.value.id) == "struct":
+                if e.attr not in self.struct_fields:
+                    self.refuse(e, "unknown field of the APS frame")
+                return self.use(e.value.id, e.attr)
+            if ast.unparse(e) == "self.state.node_info.nwk":
+                return "own_nwk"
+            obj = _resolve(self.ns, e)
+            if obj is not _MISSING and isinstance(obj, int) and not isinstance(obj, bool):
+                return f"{int(obj)}%Z (* {_cmt(ast.unparse(e))} *)"
+            self.refuse(e, "attribute that is neither a field read nor an integer constant of the live module")
+        self.refuse(e, "integer expression")
+
+    def cond(self, e) -> str:
+        if isinstance(e, ast.Compare) and len(e.ops) == 1 and isinstance(e.ops[0], (ast.Eq, ast.NotEq)):
+            t = f"({self.zexpr(e.left)} =? {self.zexpr(e.comparators[0])})%Z"
+            return t if isinstance(e.ops[0], ast.Eq) else f"negb {t}"
+        self.refuse(e, "condition")
+
+    def _kwcall(self, e, cls, want):
+        if not (isinstance(e, ast.Call) and _resolve(self.ns, e.func) is cls and not e.args):
+            self.refuse(e, f"expected {cls.__name__}(<keywords>)")
+        kw = {}
+        for k in e.keywords:
+            if k.arg is None or k.arg in kw:
+                self.refuse(e, "keyword arguments")
+            kw[k.arg] = k.value
+        if set(kw) != set(want):
+            self.refuse(e, f"keywords {sorted(kw)} differ from {sorted(want)}")
+        return kw
+
+    def addr(self, e):
+        """AddrModeAddress(addr_mode=<AddrMode member>, address=<integer>) -> (member name, term)"""
+        kw = self._kwcall(e, self.zt.AddrModeAddress, ("addr_mode", "address"))
+        mode = _resolve(self.ns, kw["addr_mode"])
+        if not isinstance(mode, self.zt.AddrMode):
+            self.refuse(kw["addr_mode"], "address mode")
+        return mode, self.zexpr(kw["address"])
+
+    def dest(self, e) -> str:
+        if isinstance(e, ast.Name):
+            if self.locals.get(e.id) == "dest":
+                return e.id
+            self.refuse(e, "local is not assigned on every path that reaches this use (UnboundLocalError)")
+        mode, term = self.addr(e)
+        ctor = {self.zt.AddrMode.NWK: "DNwk", self.zt.AddrMode.Group: "DGroup", self.zt.AddrMode.Broadcast: "DBroadcast"}.get(mode)
+        if ctor is None:
+            self.refuse(e, f"destination mode {mode!r} has no counterpart in the model")
+        return f"{ctor} ({term})"
+
+    def packet(self, e) -> str:
+        kw = self._kwcall(e, self.zt.ZigbeePacket, ("src", "dst", "data") + tuple(self.PACKET_FIELDS))
+        rec = {}
+        mode, term = self.addr(kw["src"])
+        if mode is not self.zt.AddrMode.NWK:
+            self.refuse(kw["src"], "source address mode is not NWK")
+        rec["k_src"] = term
+        rec["k_dst"] = self.dest(kw["dst"])
+        d = kw["data"]
+        if not (isinstance(d, ast.Call) and _resolve(self.ns, d.func) is self.zt.SerializableBytes and len(d.args) == 1
+                and not d.keywords and isinstance(d.args[0], ast.Name) and self.params.get(d.args[0].id) == "bytes"):
+            self.refuse(d, "payload")
+        rec["k_data"] = self.use(d.args[0].id)
+        for k, f in self.PACKET_FIELDS.items():
+            rec[f] = self.zexpr(kw[k])
+        return "{| " + ";\n   ".join(f"{f} := {rec[f]}" for f in self.RECORD_ORDER) + " |}"
+
+    # ---- statements ----------------------------------------------------------------------------
+    def skip(self, s) -> bool:
+        if isinstance(s, ast.Pass):
+            return True
+        if isinstance(s, ast.Expr) and isinstance(s.value, ast.Constant):
+            return True
+        src = ast.unparse(s)
+        if isinstance(s, ast.Expr) and _COUNTER_INC.match(src):
+            if src not in self.ignored:
+                self.ignored.append(src)
+            return True
+        if _dump(src) in self.ghosts:
+            first = src.split("\n")[0]
+            if first not in self.ignored:
+                self.ignored.append(first)
+            return True
+        return False
+
+    def stmts(self, body) -> str:
+        if not body:
+            return "ev"
+        s, rest = body[0], body[1:]
+        if self.skip(s):
+            return self.stmts(rest)
+        if isinstance(s, ast.Return) and s.value is None:
+            return "ev"
+        if isinstance(s, ast.If):
+            saved = dict(self.locals)
+            a = self.stmts(list(s.body) + rest)
+            self.locals = dict(saved)
+            b = self.stmts(list(s.orelse) + rest)
+            self.locals = saved
+            return f"if {self.cond(s.test)} then\n{textwrap.indent(a, '  ')}\nelse\n{textwrap.indent(b, '  ')}"
+        if isinstance(s, ast.Assign) and len(s.targets) == 1 and isinstance(s.targets[0], ast.Name):
+            name = s.targets[0].id
+            if name in self.params:
+                self.refuse(s, "assignment to a parameter")
+            term = self.dest(s.value)
+            self.locals[name] = "dest"
+            return f"let {name} := {term} in\n{self.stmts(rest)}"
+        if isinstance(s, ast.Expr) and isinstance(s.value, ast.Call) and not s.value.keywords:
+            f, args = ast.unparse(s.value.func), s.value.args
+            if f == "self.packet_received" and len(args) == 1:
+                return f"let ev := ev ++ [EvPacket\n  {self.packet(args[0])}] in\n{self.stmts(rest)}"
+            kinds = [self.params.get(a.id) if isinstance(a, ast.Name) else None for a in args]
+            if f == "self.handle_leave" and kinds == ["Z", "rows"]:
+                return f"let ev := ev ++ [EvLeave {self.use(args[0].id)} {self.use(args[1].id)}] in\n{self.stmts(rest)}"
+            if f == "self.handle_join" and kinds == ["Z", "rows", "Z"]:
+                return (f"let ev := ev ++ [EvJoin {self.use(args[0].id)} {self.use(args[1].id)} {self.use(args[2].id)}] in\n"
+                        f"{self.stmts(rest)}")
+        self.refuse(s)
+
+
+COQ_KIND = {"Z": "Z", "bytes": "list N", "rows": "list (list pval)"}
+# _handle_tc_join_handler: task management that hands nothing to zigpy (the link-key clean-up task, the temporary
+# manufacturer id); pinned by their normalised source and skipped
+JOIN_GHOSTS = (
+    "if device_update_status == t.EmberDeviceUpdate.STANDARD_SECURITY_UNSECURED_JOIN:\n"
+    "    self.create_task(self.cleanup_tc_link_key(ieee), 'cleanup_tc_link_key')",
+    "mfg_id = IEEE_PREFIX_MFG_ID.get(str(ieee)[:8].upper())",
+    "if mfg_id is not None:\n"
+    "    if self._mfg_id_task and not self._mfg_id_task.done():\n"
+    "        self._mfg_id_task.cancel()\n"
+    "    self._mfg_id_task = asyncio.create_task(self._reset_mfg_id(mfg_id))",
+)
+
+
+def _app_handler(C, ns, name, coq_name, ghosts=()):
+    """translate one handler; returns (text, info) with info = parameter list, kinds, reads"""
+    import bellows.types as t
+    import ezsptypes as et
+    node = _fn_ast(C.__dict__[name])
+    where = f"ControllerApplication.{name} (source)"
+    a = node.args
+    if a.vararg or a.kwarg or a.kwonlyargs or a.defaults or a.posonlyargs or not a.args or a.args[0].arg != "self":
+        raise GenError(where, "signature is not (self, <plain parameters>)")
+    params, kinds, schema_kind = [], {}, {}
+    for p in a.args[1:]:
+        if p.annotation is None:
+            raise GenError(where, f"parameter {p.arg} has no annotation")
+        obj = _resolve(ns, p.annotation)
+        if isinstance(p.annotation, ast.Name) and p.annotation.id == "bytes" and "bytes" not in ns:
+            obj = bytes
+        if obj is bytes:
+            k, sk = "bytes", "lvbytes"
+        else:
+            try:
+                sk = et.kind(obj)
+            except Exception as e:
+                raise GenError(where, f"parameter {p.arg}: annotation `{ast.unparse(p.annotation)}`: {e}")
+            k = {"int": "Z", "fixedlist": "rows", "struct": "struct"}.get(sk)
+            if k is None or (k == "struct" and obj is not t.EmberApsFrame):
+                raise GenError(where, f"parameter {p.arg}: annotation `{ast.unparse(p.annotation)}` is not an integer, EUI64, bytes or EmberApsFrame")
+        params.append(p.arg)
+        kinds[p.arg] = k
+        schema_kind[p.arg] = sk
+    tr = AppTr(where, ns, kinds, [f.name for f in t.EmberApsFrame.fields], ghosts)
+    body = _StripLogs().visit(node).body
+    term = tr.stmts(list(body))
+    # parameters of the emitted function: reads in the order of the Python signature (struct attributes by first use)
+    reads = [r for p in params for r in tr.reads if r[1] == p]
+    sig = " ".join(f"({n} : {COQ_KIND['Z' if at else kinds[p]]})" for n, p, at in reads)
+    unread = [p for p in params if not any(r[1] == p for r in reads)]
+    txt = (f"(* from the source of ControllerApplication.{name}.  own_nwk = self.state.node_info.nwk; the other parameters are the\n"
+           f"   values the body reads from its Python parameters ({', '.join(n + ' = ' + p + '.' + at for n, p, at in reads if at) or 'no attribute reads'});\n"
+           f"   never read: {', '.join(unread) or '-'}.  Skipped (no event handed to zigpy): log calls"
+           + "".join(f";\n   {_cmt(x)}" for x in tr.ignored) + " *)\n"
+           f"Definition {coq_name} (own_nwk : Z) {sig} : list app_event :=\n"
+           f"  let ev := @nil app_event in\n{textwrap.indent(term, '  ')}.\n\n")
+    return txt, {"params": params, "kinds": kinds, "schema_kind": schema_kind, "reads": reads, "coq": coq_name,
+                 "first": "own_nwk", "wrap": ("POut (", ")"), "fail": "POut None"}
+
+
+def _version_test(t, where):
+    """self._ezsp.ezsp_version <op> <int literal> -> (Gallina term over v, python predicate)"""
+    if isinstance(t, ast.Compare) and len(t.ops) == 1 and ast.unparse(t.left) == "self._ezsp.ezsp_version" \
+            and isinstance(t.comparators[0], ast.Constant) and type(t.comparators[0].value) is int and t.comparators[0].value >= 0:
+        n = t.comparators[0].value
+        table = {ast.GtE: (f"({n} <=? v)", lambda v: v >= n), ast.Gt: (f"({n} <? v)", lambda v: v > n),
+                 ast.LtE: (f"(v <=? {n})", lambda v: v <= n), ast.Lt: (f"(v <? {n})", lambda v: v < n),
+                 ast.Eq: (f"(v =? {n})", lambda v: v == n)}
+        if type(t.ops[0]) in table:
+            return table[type(t.ops[0])]
+    raise GenError(where, f"version test `{ast.unparse(t)}`")
+
+
+def _unpack(s, where):
+    """`(a, b, ...) = args` -> names in order"""
+    if isinstance(s, ast.Assign) and len(s.targets) == 1 and isinstance(s.targets[0], ast.Tuple) \
+            and isinstance(s.value, ast.Name) and s.value.id == "args" \
+            and all(isinstance(e, ast.Name) for e in s.targets[0].elts):
+        names = [e.id for e in s.targets[0].elts]
+        if len(set(names)) != len(names) or "args" in names:
+            raise GenError(where, f"repeated target in `{ast.unparse(s)[:80]}`")
+        return names
+    raise GenError(where, f"expected a tuple unpacking of args: `{ast.unparse(s)[:80]}`")
+
+
+def _call_reads(info, bound, post=None, A="A"):
+    """nested reads for a call of a translated handler; `bound`: handler parameter -> Gallina term of the element index;
+    `post`: handler parameter -> function applied to the value read (a rebinding between the unpacking and the call)"""
+    getter = {"Z": "arg_int", "N": "arg_uint", "bytes": "arg_bytes", "rows": "arg_rows"}
+    post = post or {}
+    opening, names = [], []
+    for n, p, at in info["reads"]:
+        if at is None:
+            opening.append(f"obind ({getter[info['kinds'][p]]} {A} {bound[p]}) (fun v_{n} =>")
+        else:
+            opening.append(f'obind (arg_attr {A} {bound[p]} "{at}"%string) (fun v_{n} =>')
+        names.append(f"({post[p]} v_{n})" if p in post and at is None else f"v_{n}")
+    head, tail = info["wrap"]
+    return (head + "\n      ".join(opening) + f"\n      Some ({info['coq']} {info['first']} {' '.join(names)})" + ")" * len(opening) + tail)
+
+
+# _handle_frame_sent: which counter is incremented -- no control flow, nothing C12 speaks of; pinned and skipped
+SENT_GHOST = """
+if message_type in (t.EmberOutgoingMessageType.OUTGOING_BROADCAST, t.EmberOutgoingMessageType.OUTGOING_BROADCAST_WITH_ALIAS):
+    cnt_name = f'broadcast_tx_{msg}'
+elif message_type in (t.EmberOutgoingMessageType.OUTGOING_MULTICAST, t.EmberOutgoingMessageType.OUTGOING_MULTICAST_WITH_ALIAS):
+    cnt_name = f'multicast_tx_{msg}'
+elif message_type in (t.EmberOutgoingMessageType.OUTGOING_DIRECT, t.EmberOutgoingMessageType.OUTGOING_VIA_ADDRESS_TABLE):
+    cnt_name = f'unicast_tx_{msg}'
+elif message_type == t.EmberOutgoingMessageType.OUTGOING_VIA_BINDING:
+    cnt_name = f'via_binding_tx_{msg}'
+else:
+    cnt_name = f'unknown_msg_type_{msg}'
+"""
+
+
+class SentTr:
+    """ControllerApplication._handle_frame_sent: a text chosen by the status, then one try block -- the look-up of the
+    pending request under (destination, message_tag), set_result on its future -- with the handlers of KeyError and
+    asyncio.InvalidStateError.  `pending key1 key2` = Some (the request's future is already resolved) | None."""
+
+    def __init__(self, where, ns, uints):
+        self.where, self.ns, self.uints = where, ns, set(uints)
+        self.strs, self.keys = set(), {}
+        self.reads, self.ignored = [], []
+
+    def refuse(self, node, why="unsupported construct"):
+        src = ast.unparse(node) if isinstance(node, ast.AST) else str(node)
+        raise GenError(self.where, f"{why}: `{src[:100]}`")
+
+    def use(self, name):
+        if name not in self.uints:
+            self.refuse(name, "not an unsigned integer parameter")
+        if name not in self.reads:
+            self.reads.append(name)
+        return name
+
+    def nexpr(self, e):
+        if isinstance(e, ast.Name):
+            return self.use(e.id)
+        obj = _resolve(self.ns, e)
+        if isinstance(e, ast.Attribute) and obj is not _MISSING and isinstance(obj, int) and not isinstance(obj, bool) and int(obj) >= 0:
+            return f"{int(obj)} (* {_cmt(ast.unparse(e))} *)"
+        self.refuse(e, "integer expression")
+
+    def cond(self, e):
+        if isinstance(e, ast.Compare) and len(e.ops) == 1 and isinstance(e.ops[0], (ast.Eq, ast.NotEq)):
+            t = f"({self.nexpr(e.left)} =? {self.nexpr(e.comparators[0])})"
+            return t if isinstance(e.ops[0], ast.Eq) else f"negb {t}"
+        self.refuse(e, "condition")
+
+    def text(self, e):
+        """a string literal, a local holding one, or an f-string over those"""
+        if isinstance(e, ast.Constant) and isinstance(e.value, str) and '"' not in e.value:
+            return f'"{e.value}"%string'
+        if isinstance(e, ast.Name) and e.id in self.strs:
+            return e.id
+        if isinstance(e, ast.JoinedStr):
+            parts = []
+            for v in e.values:
+                if isinstance(v, ast.FormattedValue):
+                    if v.conversion != -1 or v.format_spec is not None:
+                        self.refuse(e, "formatted value")
+                    parts.append(self.text(v.value))
+                else:
+                    parts.append(self.text(v))
+            return "(" + " ++ ".join(parts) + ")%string"
+        self.refuse(e, "text")
+
+    def ghost(self, s):
+        src = ast.unparse(s)
+        if isinstance(s, ast.Expr) and _COUNTER_INC.match(src):
+            self.ignored.append(src)
+            return True
+        if _dump(src) == _dump(SENT_GHOST):
+            self.ignored.append("the if/elif chain on message_type that chooses the counter name cnt_name")
+            return True
+        return isinstance(s, ast.Pass) or (isinstance(s, ast.Expr) and isinstance(s.value, ast.Constant))
+
+    def stmts(self, body):
+        if not body:
+            self.refuse("end of body", "control reaches the end of the function outside the try block")
+        s, rest = body[0], body[1:]
+        if self.ghost(s):
+            return self.stmts(rest)
+        if isinstance(s, ast.If):
+            a = self.stmts(list(s.body) + rest)
+            b = self.stmts(list(s.orelse) + rest)
+            return f"if {self.cond(s.test)} then\n{textwrap.indent(a, '  ')}\nelse\n{textwrap.indent(b, '  ')}"
+        if isinstance(s, ast.Assign) and len(s.targets) == 1 and isinstance(s.targets[0], ast.Name) \
+                and isinstance(s.value, ast.Constant) and isinstance(s.value.value, str):
+            name = s.targets[0].id
+            if name in self.uints:
+                self.refuse(s, "assignment to a parameter")
+            self.strs.add(name)
+            return f"let {name} := {self.text(s.value)} in\n{self.stmts(rest)}"
+        if isinstance(s, ast.Try) and not rest:
+            return self.try_(s)
+        self.refuse(s)
+
+    def try_(self, t):
+        if t.orelse or t.finalbody:
+            self.refuse(t, "try with else / finally")
+        hs = {}
+        for h in t.handlers:
+            exc = _resolve(self.ns, h.type) if h.type is not None else _MISSING
+            if isinstance(h.type, ast.Name) and h.type.id == "KeyError" and "KeyError" not in self.ns:
+                exc = KeyError
+            if not all(self.ghost(x) for x in _StripLogs()._clean(h.body)):
+                self.refuse(h, "handler body is more than counters and log calls")
+            hs[exc] = True
+        import asyncio
+        if set(hs) != {KeyError, asyncio.InvalidStateError}:
+            self.refuse(t, "handlers are not exactly KeyError and asyncio.InvalidStateError")
+        return self.tbody(list(t.body), None)
+
+    def tbody(self, body, req):
+        """statements of the try block; `req` = (name of the request local, Gallina variable for `its future is resolved`)"""
+        if not body:
+            return "out"
+        s, rest = body[0], body[1:]
+        if self.ghost(s):
+            return self.tbody(rest, req)
+        if isinstance(s, ast.Assign) and len(s.targets) == 1 and isinstance(s.targets[0], ast.Name):
+            name, v = s.targets[0].id, s.value
+            if isinstance(v, ast.Tuple) and len(v.elts) == 2 and all(isinstance(x, ast.Name) for x in v.elts):
+                self.keys[name] = True
+                return f"let {name} := ({self.use(v.elts[0].id)}, {self.use(v.elts[1].id)}) in\n{self.tbody(rest, req)}"
+            if isinstance(v, ast.Subscript) and ast.unparse(v.value) == "self._pending" and isinstance(v.slice, ast.Name) \
+                    and v.slice.id in self.keys and req is None:
+                k = v.slice.id
+                return (f"match pending (fst {k}) (snd {k}) with   (* {name} = self._pending[{k}] *)\n"
+                        f"| None => PUnexpected   (* KeyError *)\n"
+                        f"| Some {name}_done =>\n{textwrap.indent(self.tbody(rest, (name, name + '_done', k)), '    ')}\nend")
+        if isinstance(s, ast.Expr) and isinstance(s.value, ast.Call) and req is not None \
+                and ast.unparse(s.value.func) == f"{req[0]}.result.set_result" and len(s.value.args) == 1 and not s.value.keywords:
+            a = s.value.args[0]
+            if not (isinstance(a, ast.Tuple) and len(a.elts) == 2 and isinstance(a.elts[0], ast.Name)):
+                self.refuse(s, "result value")
+            if "out" in ast.unparse(ast.Module(body=rest, type_ignores=[])).split():
+                self.refuse(s, "name clash")
+            return (f"if {req[1]} then PDuplicate   (* set_result on a resolved future: asyncio.InvalidStateError *)\nelse\n"
+                    f"  let out := PSetResult {req[2]} {self.use(a.elts[0].id)} {self.text(a.elts[1])} in\n"
+                    f"{textwrap.indent(self.tbody(rest, ('', '', '')), '  ')}")
+        self.refuse(s)
+
+
+def _sent_handler(C, ns):
+    import ezsptypes as et
+    name = "_handle_frame_sent"
+    node = _fn_ast(C.__dict__[name])
+    where = f"ControllerApplication.{name} (source)"
+    a = node.args
+    if a.vararg or a.kwarg or a.kwonlyargs or a.defaults or a.posonlyargs or not a.args or a.args[0].arg != "self":
+        raise GenError(where, "signature is not (self, <plain parameters>)")
+    params, kinds, schema_kind = [], {}, {}
+    for p in a.args[1:]:
+        if p.annotation is None:
+            raise GenError(where, f"parameter {p.arg} has no annotation")
+        obj = _resolve(ns, p.annotation)
+        if isinstance(p.annotation, ast.Name) and p.annotation.id in ("int", "bytes") and p.annotation.id not in ns:
+            obj = {"int": int, "bytes": bytes}[p.annotation.id]
+        params.append(p.arg)
+        if obj is int or (isinstance(obj, type) and et.is_int(obj) and et.prim_of_int(obj)[0] == "U"):
+            kinds[p.arg], schema_kind[p.arg] = "N", "int"
+        else:
+            kinds[p.arg], schema_kind[p.arg] = "other", None      # may not be read by the body
+    tr = SentTr(where, ns, [p for p in params if kinds[p] == "N"])
+    term = tr.stmts(list(_StripLogs().visit(node).body))
+    reads = [(p, p, None) for p in params if p in tr.reads]
+    unread = [p for p in params if p not in tr.reads]
+    txt = (f"(* from the source of ControllerApplication.{name}.  pending key1 key2 = Some (is the future of the request registered\n"
+           f"   under (key1, key2) in self._pending resolved) | None; the other parameters are the values the body reads; never read\n"
+           f"   (beyond the counter name): {', '.join(unread) or '-'}.  Skipped: log calls"
+           + "".join(f";\n   {_cmt(x)}" for x in dict.fromkeys(tr.ignored)) + " *)\n"
+           f"Definition py_handle_frame_sent (pending : N -> N -> option bool) {' '.join(f'({n} : N)' for n, _, _ in reads)} : py_sent :=\n"
+           f"{textwrap.indent(term, '  ')}.\n\n")
+    return txt, {"params": params, "kinds": kinds, "schema_kind": schema_kind, "reads": reads, "coq": "py_handle_frame_sent",
+                 "first": "pending", "wrap": ("PSent (fun pending => ", ")"), "fail": "PSent (fun _ => None)", "unsigned": True}
+
+
+def gen_app_fn() -> str:
+    import bellows.ezsp as ezsp
+    import bellows.types as bt
+    import bellows.zigbee.application as A
+    import ezsptypes as et
+    C = A.ControllerApplication
+    ns = vars(A)
+    out = [APP_PREAMBLE]
+    txt, h_frame = _app_handler(C, ns, "_handle_frame", "py_handle_frame")
+    out.append(txt)
+    txt, h_join = _app_handler(C, ns, "_handle_tc_join_handler", "py_handle_tc_join_handler", JOIN_GHOSTS)
+    out.append(txt)
+    txt, h_sent = _sent_handler(C, ns)
+    out.append(txt)
+    handlers = {"_handle_frame": h_frame, "_handle_tc_join_handler": h_join, "_handle_frame_sent": h_sent}
+    events = {"packet_received", "handle_join", "handle_leave"}
+    families = {bt.EzspStatus: "FEzsp", bt.EmberStatus: "FEmber", bt.sl_Status: "FUnified"}
+
+    where = "ControllerApplication.ezsp_callback_handler (source)"
+    node = _fn_ast(C.__dict__["ezsp_callback_handler"])
+    if [a.arg for a in node.args.args] != ["self", "frame_name", "args"] or node.args.vararg or node.args.kwarg or node.args.kwonlyargs:
+        raise GenError(where, "signature is not (self, frame_name, args)")
+    body = _StripLogs().visit(node).body
+    if len(body) != 1 or not isinstance(body[0], ast.If):
+        raise GenError(where, "expected a single if/elif chain on frame_name")
+
+    def schema_types(frame, applies):
+        for v in sorted(ezsp.EZSP._BY_VERSION):
+            if applies(v):
+                yield v, list(ezsp.EZSP._BY_VERSION[v].COMMANDS[frame][2].values())
+
+    def check_kinds(frame, info, bound_idx, applies):
+        """the schema type at the element a parameter is bound to agrees with the parameter's annotation, in every version"""
+        for v, tys in schema_types(frame, applies):
+            for n, p, at in info["reads"]:
+                i = bound_idx[p]
+                if i >= len(tys):
+                    continue
+                if et.kind(tys[i]) != info["schema_kind"][p]:
+                    raise GenError(where, f"v{v} {frame}: element {i} ({tys[i].__name__}) is passed as `{p}`, annotated as {info['schema_kind'][p]}")
+                if info.get("unsigned") and et.prim_of_int(tys[i])[0] != "U":
+                    raise GenError(where, f"v{v} {frame}: element {i} ({tys[i].__name__}) is signed but `{p}` is read as unsigned")
+
+    def branch(frame, stmts, applies) -> str:
+        """body of one branch of the chain whose last statement calls a translated handler"""
+        s, rest = stmts[0], stmts[1:]
+        if isinstance(s, ast.If) and rest:
+            term, pred = _version_test(s.test, where)
+            a = branch(frame, list(s.body) + rest, lambda v: applies(v) and pred(v))
+            b = branch(frame, list(s.orelse) + rest, lambda v: applies(v) and not pred(v))
+            return f"if {term} then   (* {_cmt(ast.unparse(s.test))} *)\n{textwrap.indent(a, '  ')}\nelse\n{textwrap.indent(b, '  ')}"
+        call = stmts[-1]
+        if not (isinstance(call, ast.Expr) and isinstance(call.value, ast.Call) and ast.unparse(call.value.func).startswith("self.")
+                and ast.unparse(call.value.func)[5:] in handlers):
+            raise GenError(where, f"{frame}: expected a call of a translated handler, got `{ast.unparse(call)[:80]}`")
+        c = call.value
+        info = handlers[ast.unparse(c.func)[5:]]
+        if len(stmts) == 1 and len(c.args) == 1 and isinstance(c.args[0], ast.Starred) and ast.unparse(c.args[0].value) == "args" and not c.keywords:
+            # handler(*args): parameter i is element i; TypeError unless the tuple has as many elements as parameters
+            n = len(info["params"])
+            idx = {p: i for i, p in enumerate(info["params"])}
+            check_kinds(frame, info, idx, applies)
+            return (f"(* self.{ast.unparse(c.func)[5:]}( *args): TypeError unless len(args) = {n} *)\n"
+                    f"if negb (args_len A =? {n})%nat then {info['fail']} else\n"
+                    + _call_reads(info, {p: f"{i}%nat" for p, i in idx.items()}))
+        if len(stmts) >= 2 and not c.args:
+            names = _unpack(stmts[0], where)
+            # between the unpacking and the call: <name> = t.sl_Status.from_ember_status(<name>) (the status family is that of
+            # the schema type of the element, the same in every version the branch applies to)
+            rebound = {}
+            for m in stmts[1:-1]:
+                ok = (isinstance(m, ast.Assign) and len(m.targets) == 1 and isinstance(m.targets[0], ast.Name) and m.targets[0].id in names
+                      and isinstance(m.value, ast.Call) and len(m.value.args) == 1 and not m.value.keywords
+                      and ast.unparse(m.value.args[0]) == m.targets[0].id and m.targets[0].id not in rebound
+                      and getattr(_resolve(ns, m.value.func), "__func__", None) is bt.sl_Status.from_ember_status.__func__)
+                if not ok:
+                    raise GenError(where, f"{frame}: unsupported statement before the call: `{ast.unparse(m)[:80]}`")
+                nm = m.targets[0].id
+                fams = {families.get(tys[names.index(nm)]) if names.index(nm) < len(tys) else None for _, tys in schema_types(frame, applies)}
+                if len(fams) != 1 or None in fams:
+                    raise GenError(where, f"{frame}: `{nm}` is not of one status family in the versions this branch applies to")
+                rebound[nm] = f"normalise {fams.pop()}"
+            kw = {}
+            for k in c.keywords:
+                if k.arg is None or k.arg in kw or not isinstance(k.value, ast.Name) or k.value.id not in names:
+                    raise GenError(where, f"{frame}: keyword `{ast.unparse(k)}` is not <parameter>=<unpacked name>")
+                kw[k.arg] = k.value.id
+            if sorted(kw) != sorted(info["params"]):
+                raise GenError(where, f"{frame}: keywords {sorted(kw)} differ from the parameters {sorted(info['params'])}")
+            post = {p: rebound[kw[p]] for p in info["params"] if kw[p] in rebound}
+            if any(info["kinds"][p] != "N" for p in post):
+                raise GenError(where, f"{frame}: a converted status is passed as a parameter that is not an unsigned integer")
+            check_kinds(frame, info, {p: names.index(kw[p]) for p in info["params"]}, applies)
+            lets = "".join(f"let {nm} := {i}%nat in\n" for i, nm in enumerate(names))
+            conv = "".join(f"(* {_cmt(ast.unparse(m))} *)\n" for m in stmts[1:-1])
+            return (f"(* ({', '.join(names)}) = args: ValueError unless len(args) = {len(names)} *)\n"
+                    f"if negb (args_len A =? {len(names)})%nat then {info['fail']} else\n{lets}{conv}"
+                    f"(* self.{ast.unparse(c.func)[5:]}({', '.join(p + '=' + kw[p] for p in info['params'])}) *)\n"
+                    + _call_reads(info, kw, post))
+        raise GenError(where, f"{frame}: unsupported branch body `{ast.unparse(stmts[0])[:80]}`")
+
+    def chain(cur) -> str:
+        t = cur.test
+        if not (isinstance(t, ast.Compare) and len(t.ops) == 1 and isinstance(t.ops[0], ast.Eq) and ast.unparse(t.left) == "frame_name"
+                and isinstance(t.comparators[0], ast.Constant) and isinstance(t.comparators[0].value, str)):
+            raise GenError(where, f"unexpected test `{ast.unparse(t)}`")
+        frame = t.comparators[0].value
+        calls = []
+        for n in ast.walk(ast.Module(body=cur.body, type_ignores=[])):
+            if isinstance(n, ast.Call) and isinstance(n.func, ast.Attribute) and isinstance(n.func.value, ast.Name) and n.func.value.id == "self":
+                calls.append(n.func.attr)
+        if any(c in handlers for c in calls):
+            if not all(frame in E.COMMANDS for E in ezsp.EZSP._BY_VERSION.values()):
+                raise GenError(where, f"{frame}: not a callback of every version")
+            this = branch(frame, list(cur.body), lambda v: True)
+        else:
+            if any(c in events for c in calls):
+                raise GenError(where, f"{frame}: the branch hands events to zigpy itself: `{calls}`")
+            this = "PCalls [" + "; ".join(f'"{c}"%string' for c in calls) + "]"
+        if not cur.orelse:
+            rest = "PNoBranch"
+        elif len(cur.orelse) == 1 and isinstance(cur.orelse[0], ast.If):
+            rest = chain(cur.orelse[0])
+        else:
+            raise GenError(where, "the chain ends in an else branch")
+        return f'if String.eqb frame_name "{frame}"%string then\n{textwrap.indent(this, "  ")}\nelse {rest}'
+
+    out.append("(* from the source of ControllerApplication.ezsp_callback_handler: the chain on frame_name, the tuple unpacking per\n"
+               "   protocol version (v = self._ezsp.ezsp_version; a name bound by the unpacking is the index of the element), the calls\n"
+               "   of the translated handlers (what the handler reads is read from the elements it is passed; a status converted by\n"
+               "   t.sl_Status.from_ember_status between the unpacking and the call is converted by Status.normalise, which mirrors it) *)\n"
+               "Definition py_ezsp_callback_handler (v : N) (own_nwk : Z) (frame_name : string) (vs : list ival) : py_outcome :=\n"
+               "  let A : py_args := (fields_of v frame_name, vs) in\n"
+               + textwrap.indent(chain(body[0]), "  ") + ".\n")
+    return "".join(out)
+
+
+
+
+# ==================================================================================================
+# ThreadsafeProxy.__getattr__ / func_wrapper / check_result_wrapper (bellows/thread.py)
+# ==================================================================================================
+class ThTr:
+    """The dispatch of one call through the proxy.  Values are tracked symbolically (which local holds the wrapped
+    attribute, the owner's loop, the caller's running loop, the partial, the closure ...); the run-time predicates
+    are boolean inputs of the emitted functions:
+        callable   callable(getattr(self._obj, name))           -- evaluated at attribute look-up (__getattr__)
+        coroutine  asyncio.iscoroutinefunction(<that attribute>) -- evaluated at call time (func_wrapper)
+        same_loop  self._obj_loop == asyncio.get_running_loop() -- at call time
+        closed     self._obj_loop.is_closed()                    -- at call time
+    func_wrapper becomes a decision tree whose leaves are (effects in evaluation order, what is returned);
+    the closure handed to call_soon_threadsafe becomes a function of what the wrapped body does when it runs."""
+
+    # symbolic values
+    FUNC, OWNER, CALLER, CALL, INVOKED, FUTURE, WRAPPED, CLOSURE, WRAPPER, RESULT = (
+        "func", "owner_loop", "caller_loop", "call", "invoked", "future", "wrapped", "closure", "wrapper", "result")
+
+    def __init__(self, where):
+        self.where = where
+        self.closure_term = None       # Gallina body of the closure defined inside func_wrapper
+        self.closure_name = None
+        self.wrapper_term = None
+
+    def refuse(self, node, why="unsupported construct"):
+        src = ast.unparse(node) if isinstance(node, ast.AST) else str(node)
+        raise GenError(self.where, f"{why}: `{src[:100]}`")
+
+    @staticmethod
+    def clean(body):
+        out = []
+        for s in body:
+            if isinstance(s, ast.Expr) and isinstance(s.value, ast.Constant) and isinstance(s.value.value, str):
+                continue
+            if isinstance(s, ast.Expr) and isinstance(s.value, ast.Call) and ast.unparse(s.value.func).split(".")[0] in ("LOGGER", "_LOGGER"):
+                continue
+            if isinstance(s, ast.Pass):
+                continue
+            out.append(s)
+        return out
+
+    # ---- symbolic evaluation of an expression: (symbol, effects appended) ----------------------------
+    def sym(self, e, env, scope):
+        src = ast.unparse(e)
+        if isinstance(e, ast.Name):
+            if e.id in env:
+                return env[e.id], []
+            self.refuse(e, "unknown name")
+        if src == "self._obj_loop":
+            return self.OWNER, []
+        if src == "asyncio.get_running_loop()":
+            if scope != "wrapper":
+                self.refuse(e, "the caller's loop must be read at call time (inside the wrapper)")
+            return self.CALLER, []
+        if src == "getattr(self._obj, name)":
+            if scope != "getattr":
+                self.refuse(e, "attribute look-up outside __getattr__")
+            return self.FUNC, []
+        if isinstance(e, ast.Call):
+            f = ast.unparse(e.func)
+            if f == "functools.partial":
+                ok = (len(e.args) == 2 and isinstance(e.args[1], ast.Starred) and ast.unparse(e.args[1].value) == "args"
+                      and len(e.keywords) == 1 and e.keywords[0].arg is None and ast.unparse(e.keywords[0].value) == "kwargs"
+                      and scope == "wrapper" and self.sym(e.args[0], env, scope) == (self.FUNC, []))
+                if not ok:
+                    self.refuse(e, "expected functools.partial(<attribute>, *args, **kwargs)")
+                return self.CALL, []
+            if isinstance(e.func, ast.Name) and env.get(e.func.id) == self.CALL:
+                if e.args or e.keywords:
+                    self.refuse(e, "the partial is invoked with further arguments")
+                return self.INVOKED, ["PInvoke"]
+            if f == "asyncio.run_coroutine_threadsafe":
+                if len(e.args) != 2 or e.keywords:
+                    self.refuse(e, "run_coroutine_threadsafe arguments")
+                a, ea = self.sym(e.args[0], env, scope)
+                l, el = self.sym(e.args[1], env, scope)
+                if a != self.INVOKED:
+                    self.refuse(e.args[0], "run_coroutine_threadsafe must be given the result of invoking the partial")
+                if l != self.OWNER:
+                    self.refuse(e.args[1], "run_coroutine_threadsafe must target the owner's loop")
+                return self.FUTURE, ea + el + ["PRunCoroutineThreadsafe"]
+            if f == "asyncio.wrap_future":
+                kw = {k.arg: k.value for k in e.keywords}
+                if len(e.args) != 1 or set(kw) != {"loop"}:
+                    self.refuse(e, "wrap_future arguments")
+                a, ea = self.sym(e.args[0], env, scope)
+                l, el = self.sym(kw["loop"], env, scope)
+                if a != self.FUTURE:
+                    self.refuse(e.args[0], "wrap_future must be given the future of run_coroutine_threadsafe")
+                if l != self.CALLER:
+                    self.refuse(kw["loop"], "wrap_future must bind the future to the caller's loop")
+                return self.WRAPPED, ea + el
+        self.refuse(e, "expression")
+
+    # ---- conditions (no effects allowed) ---------------------------------------------------------------
+    def cond(self, t, env, scope):
+        if isinstance(t, ast.UnaryOp) and isinstance(t.op, ast.Not):
+            return f"(negb {self.cond(t.operand, env, scope)})"
+        if isinstance(t, ast.BoolOp):
+            op = " && " if isinstance(t.op, ast.And) else " || "
+            return "(" + op.join(self.cond(v, env, scope) for v in t.values) + ")"
+
+        def pure(e):
+            s, eff = self.sym(e, env, scope)
+            if eff:
+                self.refuse(t, "condition with an effect")
+            return s
+        if isinstance(t, ast.Call):
+            f = ast.unparse(t.func)
+            if f == "callable" and len(t.args) == 1 and not t.keywords and pure(t.args[0]) == self.FUNC:
+                if scope != "getattr":
+                    self.refuse(t, "callable() is an input of the attribute look-up only")
+                return "callable"
+            if f in ("asyncio.iscoroutinefunction", "inspect.iscoroutinefunction") and len(t.args) == 1 and not t.keywords \
+                    and pure(t.args[0]) == self.FUNC:
+                if scope != "wrapper":
+                    self.refuse(t, "the method kind must be tested at call time (inside the wrapper)")
+                return "coroutine"
+            if isinstance(t.func, ast.Attribute) and t.func.attr == "is_closed" and not t.args and not t.keywords:
+                who = pure(t.func.value)
+                if who == self.OWNER and scope == "wrapper":
+                    return "closed"
+                self.refuse(t, "is_closed() of something other than the owner's loop at call time")
+        if isinstance(t, ast.Compare) and len(t.ops) == 1:
+            op, rhs = t.ops[0], t.comparators[0]
+            if isinstance(rhs, ast.Constant) and rhs.value is None and isinstance(op, (ast.Is, ast.IsNot)):
+                if pure(t.left) == self.RESULT and scope == "closure":
+                    var = t.left.id
+                    isnone = f"match {var} with None => true | Some _ => false end"
+                    return f"({isnone})" if isinstance(op, ast.Is) else f"(negb ({isnone}))"
+                self.refuse(t, "None test of something other than the result of the call in the closure")
+            if isinstance(op, (ast.Eq, ast.NotEq, ast.Is, ast.IsNot)):
+                if scope == "wrapper" and {pure(t.left), pure(rhs)} == {self.OWNER, self.CALLER}:
+                    return "same_loop" if isinstance(op, (ast.Eq, ast.Is)) else "(negb same_loop)"
+                self.refuse(t, "comparison other than owner's loop against the caller's running loop at call time")
+        self.refuse(t, "condition")
+
+    @staticmethod
+    def leaf(effs, ret):
+        return f"([{'; '.join(effs)}], {ret})"
+
+    def bind(self, s, env):
+        if len(s.targets) != 1 or not isinstance(s.targets[0], ast.Name):
+            self.refuse(s, "assignment target")
+        name = s.targets[0].id
+        if name in env:
+            self.refuse(s, "a local is assigned twice")
+        return name
+
+    # ---- func_wrapper ---------------------------------------------------------------------------------
+    def wstmts(self, body, env, effs):
+        if not body:
+            return self.leaf(effs, "RetNone")
+        s, rest = body[0], body[1:]
+        if isinstance(s, ast.Assign):
+            name = self.bind(s, env)
+            v, e = self.sym(s.value, env, "wrapper")
+            return self.wstmts(rest, dict(env, **{name: v}), effs + e)
+        if isinstance(s, ast.FunctionDef):
+            a = s.args
+            if a.args or a.vararg or a.kwarg or a.kwonlyargs or a.posonlyargs or s.decorator_list:
+                self.refuse(s.name, "closure with parameters or decorators")
+            if self.closure_name is not None and self.closure_name != s.name:
+                self.refuse(s.name, "more than one closure inside the wrapper")
+            if s.name in env:
+                self.refuse(s.name, "a local is assigned twice")
+            term = self.cstmts(self.clean(s.body), dict(env), None)
+            if self.closure_term is not None and self.closure_term != term:
+                self.refuse(s.name, "the closure is defined differently on different paths")
+            self.closure_name, self.closure_term = s.name, term
+            return self.wstmts(rest, dict(env, **{s.name: self.CLOSURE}), effs)
+        if isinstance(s, ast.If):
+            c = self.cond(s.test, env, "wrapper")
+            a = self.wstmts(self.clean(s.body) + rest, env, effs)
+            b = self.wstmts(self.clean(s.orelse) + rest, env, effs)
+            return f"if {c} then\n{textwrap.indent(a, '  ')}\nelse\n{textwrap.indent(b, '  ')}"
+        if isinstance(s, ast.Return):
+            if s.value is None or (isinstance(s.value, ast.Constant) and s.value.value is None):
+                return self.leaf(effs, "RetNone")
+            v, e = self.sym(s.value, env, "wrapper")
+            if v == self.INVOKED:
+                return self.leaf(effs + e, "RetCallResult")
+            if v == self.WRAPPED:
+                return self.leaf(effs + e, "RetWrapFuture")
+            self.refuse(s, "returned value")
+        if isinstance(s, ast.Raise) and isinstance(s.exc, ast.Call) and ast.unparse(s.exc.func) == "TypeError":
+            return self.leaf(effs, "RetTypeError")
+        if isinstance(s, ast.Expr) and isinstance(s.value, ast.Call):
+            c = s.value
+            if isinstance(c.func, ast.Attribute) and c.func.attr == "call_soon_threadsafe":
+                if self.sym(c.func.value, env, "wrapper") != (self.OWNER, []):
+                    self.refuse(c, "call_soon_threadsafe on something other than the owner's loop")
+                if len(c.args) != 1 or c.keywords:
+                    self.refuse(c, "call_soon_threadsafe arguments")
+                v, e = self.sym(c.args[0], env, "wrapper")
+                cb = {self.CLOSURE: "CbClosure", self.CALL: "CbCall"}.get(v)
+                if cb is None or e:
+                    self.refuse(c, "callback handed to call_soon_threadsafe")
+                return self.wstmts(rest, env, effs + [f"PCallSoonThreadsafe {cb}"])
+            v, e = self.sym(c, env, "wrapper")
+            if v == self.INVOKED:              # a bare `call()`
+                return self.wstmts(rest, env, effs + e)
+        self.refuse(s)
+
+    # ---- the closure run by the owner's loop; `b : body` is what the wrapped method does when it runs ----
+    def cstmts(self, body, env, result_var):
+        invoked = result_var is not None
+        if not body:
+            return "OReturned" if invoked else "ONotCalled"
+        s, rest = body[0], body[1:]
+        is_invoke = lambda e: isinstance(e, ast.Call) and isinstance(e.func, ast.Name) and env.get(e.func.id) == self.CALL \
+            and not e.args and not e.keywords
+        if (isinstance(s, ast.Assign) and is_invoke(s.value)) or (isinstance(s, ast.Expr) and is_invoke(s.value)):
+            if invoked:
+                self.refuse(s, "the closure invokes the partial twice")
+            name = self.bind(s, env) if isinstance(s, ast.Assign) else "_result"
+            inner = self.cstmts(rest, dict(env, **{name: self.RESULT}), name)
+            return (f"match b with\n| BRaises e => ORaised e\n| BReturns {name} =>\n{textwrap.indent(inner, '    ')}\nend")
+        if isinstance(s, ast.If):
+            c = self.cond(s.test, env, "closure")
+            a = self.cstmts(self.clean(s.body) + rest, env, result_var)
+            b = self.cstmts(self.clean(s.orelse) + rest, env, result_var)
+            return f"if {c} then\n{textwrap.indent(a, '  ')}\nelse\n{textwrap.indent(b, '  ')}"
+        if isinstance(s, ast.Raise) and isinstance(s.exc, ast.Call) and ast.unparse(s.exc.func) == "TypeError":
+            return "OTypeError"
+        if isinstance(s, ast.Return) and (s.value is None or (isinstance(s.value, ast.Constant) and s.value.value is None)):
+            return "OReturned" if invoked else "ONotCalled"
+        self.refuse(s, "statement of the closure")
+
+    # ---- __getattr__ ------------------------------------------------------------------------------------
+    def gstmts(self, body, env):
+        if not body:
+            self.refuse("end of __getattr__", "control reaches the end without returning the wrapper")
+        s, rest = body[0], body[1:]
+        if isinstance(s, ast.Assign):
+            name = self.bind(s, env)
+            v, e = self.sym(s.value, env, "getattr")
+            if e:
+                self.refuse(s, "effect at attribute look-up")
+            return self.gstmts(rest, dict(env, **{name: v}))
+        if isinstance(s, ast.If):
+            c = self.cond(s.test, env, "getattr")
+            a = self.gstmts(self.clean(s.body) + rest, env)
+            b = self.gstmts(self.clean(s.orelse) + rest, env)
+            return f"if {c} then\n{textwrap.indent(a, '  ')}\nelse\n{textwrap.indent(b, '  ')}"
+        if isinstance(s, ast.Raise) and isinstance(s.exc, ast.Call) and ast.unparse(s.exc.func) == "TypeError":
+            return "AttrTypeError"
+        if isinstance(s, ast.FunctionDef):
+            a = s.args
+            ok = (not a.args and not a.kwonlyargs and not a.posonlyargs and not s.decorator_list and a.vararg is not None
+                  and a.vararg.arg == "args" and a.kwarg is not None and a.kwarg.arg == "kwargs")
+            if not ok:
+                self.refuse(s.name, "the wrapper must be `def <name>(*args, **kwargs)`")
+            if self.wrapper_term is not None or s.name in env:
+                self.refuse(s.name, "more than one wrapper")
+            self.wrapper_term = self.wstmts(self.clean(s.body), dict(env), [])
+            return self.gstmts(rest, dict(env, **{s.name: self.WRAPPER}))
+        if isinstance(s, ast.Return) and s.value is not None and self.sym(s.value, env, "getattr") == (self.WRAPPER, []):
+            return "AttrWrapper"
+        self.refuse(s)
+
+
+def gen_thread_fn() -> str:
+    import bellows.thread as T
+    fn = T.ThreadsafeProxy.__dict__.get("__getattr__")
+    if fn is None:
+        raise GenError("ThreadsafeProxy.__getattr__", "not defined by this class")
+    for other in ("__getattribute__", "__call__"):
+        if other in T.ThreadsafeProxy.__dict__:
+            raise GenError(f"ThreadsafeProxy.{other}", "defined: attribute access no longer goes through __getattr__ alone")
+    init = _norm_body(T.ThreadsafeProxy.__dict__["__init__"])
+    if _dump(init) != _dump("self._obj = obj\nself._obj_loop = obj_loop"):
+        raise GenError("ThreadsafeProxy.__init__", "source differs from the form the model mirrors:\n" + init)
+    node = _fn_ast(fn)
+    where = "ThreadsafeProxy.__getattr__ (source)"
+    if [a.arg for a in node.args.args] != ["self", "name"] or node.args.vararg or node.args.kwarg or node.decorator_list:
+        raise GenError(where, "expected `def __getattr__(self, name)`")
+    tr = ThTr(where)
+    gterm = tr.gstmts(tr.clean(node.body), {})
+    if tr.wrapper_term is None:
+        raise GenError(where, "no wrapper function is defined")
+    closure = tr.closure_term if tr.closure_term is not None else "ONotCalled"
+    cname = tr.closure_name or "(none defined)"
+    return ("(* GENERATED by harness/pysrc.py from the SOURCE TEXT of ThreadsafeProxy.__getattr__ (bellows/thread.py) -- do not edit *)\n"
+            "From Coq Require Import NArith List Bool.\nImport ListNotations.\nRequire Import BV.model.Proxy.\nOpen Scope N_scope.\n\n"
+            "(* run-time predicates, inputs of the emitted functions:\n"
+            "     callable   callable(getattr(self._obj, name))             at attribute look-up\n"
+            "     coroutine  asyncio.iscoroutinefunction(<that attribute>)   at call time\n"
+            "     same_loop  self._obj_loop == asyncio.get_running_loop()    at call time\n"
+            "     closed     self._obj_loop.is_closed()                      at call time\n"
+            "   effects of one call of the wrapper, in evaluation order, all in the CALLER's step:\n"
+            "     PInvoke                   the partial functools.partial(<attribute>, *args, **kwargs) is invoked here\n"
+            "     PRunCoroutineThreadsafe   asyncio.run_coroutine_threadsafe(<what the invocation returned>, <owner's loop>)\n"
+            "     PCallSoonThreadsafe c     <owner's loop>.call_soon_threadsafe(c): c = the closure below | the bare partial *)\n"
+            "Inductive py_callback := CbClosure | CbCall.\n"
+            "Inductive py_eff := PInvoke | PRunCoroutineThreadsafe | PCallSoonThreadsafe (c : py_callback).\n"
+            "(* what the wrapper returns: raises TypeError | what the invocation returned | None |\n"
+            "   asyncio.wrap_future(<future of run_coroutine_threadsafe>, loop=<caller's running loop>) *)\n"
+            "Inductive py_ret := RetTypeError | RetCallResult | RetNone | RetWrapFuture.\n"
+            "Inductive py_attr := AttrTypeError | AttrWrapper.\n"
+            "(* the closure when the owner's loop runs it: never invoked the partial | the wrapped body's exception escapes |\n"
+            "   TypeError raised by the closure | returns None *)\n"
+            "Inductive py_owner_outcome := ONotCalled | ORaised (e : N) | OTypeError | OReturned.\n\n"
+            f"(* from the source of the closure {cname} inside the wrapper; b: what the wrapped method does when it runs *)\n"
+            f"Definition py_closure (b : body) : py_owner_outcome :=\n{textwrap.indent(closure, '  ')}.\n\n"
+            "(* from the source of the wrapper returned by ThreadsafeProxy.__getattr__ *)\n"
+            f"Definition py_func_wrapper (coroutine same_loop closed : bool) : list py_eff * py_ret :=\n{textwrap.indent(tr.wrapper_term, '  ')}.\n\n"
+            "(* from the source of ThreadsafeProxy.__getattr__ itself *)\n"
+            f"Definition py_getattr (callable : bool) : py_attr :=\n{textwrap.indent(gterm, '  ')}.\n")
+
+
+# ==================================================================================================
+# EZSP callback registry, stack-status listeners and the operations completed by an event
+# (bellows/ezsp/__init__.py: add_callback, remove_callback, handle_callback, stack_status_callback,
+#  wait_for_stack_status, _list_command, leaveNetwork, formNetwork; zigbee/application.py: _ensure_network_running)
+# ==================================================================================================
+EVENTS_PRELUDE = r"""(* ---- fixed vocabulary (not derived from the source) ---------------------------------------------
+   an asyncio.Future is (identity, still pending); futures compare by identity *)
+Definition fut := (N * bool)%type.
+(* self._stack_status_listeners: collections.defaultdict(list) keyed by status; a missing key reads as [] *)
+Definition ldict := list (N * list fut).
+Fixpoint dd_get (s : N) (d : ldict) : list fut :=
+  match d with [] => [] | (s', l) :: d' => if s' =? s then l else dd_get s d' end.
+Fixpoint dd_set (s : N) (l : list fut) (d : ldict) : ldict :=
+  match d with [] => [(s, l)] | (s', l') :: d' => if s' =? s then (s, l) :: d' else (s', l') :: dd_set s l d' end.
+(* list.remove(x): drops the first element equal to x; None = ValueError *)
+Fixpoint l_remove (f : N) (l : list fut) : option (list fut) :=
+  match l with
+  | [] => None
+  | (i, p) :: l' => if i =? f then Some l' else match l_remove f l' with Some r => Some ((i, p) :: r) | None => None end
+  end.
+(* for x in l: x.set_result(..) -- set_result on a future that is no longer pending raises InvalidStateError, which
+   ends the loop; result: the list afterwards, whether the exception escaped *)
+Fixpoint py_set_results (l : list fut) : list fut * bool :=
+  match l with
+  | [] => ([], false)
+  | (i, p) :: l' => if p then let '(r, raised) := py_set_results l' in ((i, false) :: r, raised) else ((i, p) :: l', true)
+  end.
+(* self._callbacks: a dict (insertion ordered) from integer ids to callbacks *)
+Definition zdict (C : Type) := list (Z * C).
+Fixpoint zd_mem {C} (k : Z) (d : zdict C) : bool :=
+  match d with [] => false | (k', _) :: d' => (k' =? k)%Z || zd_mem k d' end.
+Fixpoint zd_set {C} (k : Z) (v : C) (d : zdict C) : zdict C :=
+  match d with [] => [(k, v)] | (k', v') :: d' => if (k' =? k)%Z then (k, v) :: d' else (k', v') :: zd_set k v d' end.
+(* d.pop(k): None = KeyError *)
+Fixpoint zd_pop {C} (k : Z) (d : zdict C) : option (C * zdict C) :=
+  match d with
+  | [] => None
+  | (k', v') :: d' => if (k' =? k)%Z then Some (v', d')
+                      else match zd_pop k d' with Some (v, r) => Some (v, (k', v') :: r) | None => None end
+  end.
+(* `while k in d: k += 1` run for at most [fuel] iterations; with fuel = len(d) + 1 the loop has always ended by
+   itself (proofs/EventsSrc_proofs.v, probe_fresh: the value returned is not a key) *)
+Fixpoint py_probe {C} (fuel : nat) (d : zdict C) (k : Z) : Z :=
+  match fuel with O => k | S f => if zd_mem k d then py_probe f d (k + 1)%Z else k end.
+
+(* an operation completed by an event, as a script: statements before the scope, the scope (what is registered on entry
+   and removed on exit), the statements inside it, in order.  Every statement may leave the function (exception,
+   cancellation at an await, early return).
+     PAwait c      await of the EZSP command c                 PGuard   if <test on a reply>: raise .. / return ..
+     PAwaitEvent   await of the future the scope registered (under asyncio_timeout where the source has one) *)
+Inductive py_simple := PAwait (c : string) | PGuard | PAwaitEvent.
+Inductive py_scope :=
+| ScopeWith (status : N)      (* with self.wait_for_stack_status(<status>) as <future>: ... *)
+| ScopeCallback.              (* cbid = self.add_callback(cb) ; try: ... finally: self.remove_callback(cbid) *)
+Record py_op := { op_pre : list py_simple; op_scope : py_scope; op_body : list py_simple; op_post : list py_simple }.
+
+"""
+
+
+class EvTr:
+    def __init__(self, where):
+        self.where = where
+
+    def refuse(self, node, why="unsupported construct"):
+        src = ast.unparse(node) if isinstance(node, ast.AST) else str(node)
+        raise GenError(self.where, f"{why}: `{src[:100]}`")
+
+    @staticmethod
+    def clean(body):
+        return ThTr.clean(body)
+
+    # ---- add_callback ----------------------------------------------------------------------------------
+    def add_callback(self, node):
+        if [a.arg for a in node.args.args] != ["self", "cb"]:
+            self.refuse(node.name, "parameters")
+        lines, idv = [], None
+        body = self.clean(node.body)
+        for i, s in enumerate(body):
+            src = ast.unparse(s)
+            if isinstance(s, ast.Assign) and len(s.targets) == 1 and isinstance(s.targets[0], ast.Name) and ast.unparse(s.value) == "hash(cb)" and idv is None:
+                idv = s.targets[0].id
+                lines.append(f"let {idv} := hash_cb in")
+            elif isinstance(s, ast.While) and idv and ast.unparse(s.test) == f"{idv} in self._callbacks" and not s.orelse \
+                    and [ast.unparse(x) for x in self.clean(s.body)] == [f"{idv} += 1"]:
+                lines.append(f"let {idv} := py_probe (S (List.length cbs)) cbs {idv} in")
+            elif idv and src == f"self._callbacks[{idv}] = cb":
+                lines.append(f"let cbs := zd_set {idv} cb cbs in")
+            elif idv and src == f"return {idv}" and i == len(body) - 1:
+                lines.append(f"(cbs, {idv})")
+                return "\n".join(lines)
+            else:
+                self.refuse(s)
+        self.refuse(node.name, "control reaches the end without returning the id")
+
+    # ---- remove_callback -------------------------------------------------------------------------------
+    def remove_callback(self, node):
+        if [a.arg for a in node.args.args] != ["self", "id_"]:
+            self.refuse(node.name, "parameters")
+        body = self.clean(node.body)
+        if len(body) == 1 and ast.unparse(body[0]) in ("return self._callbacks.pop(id_)", "self._callbacks.pop(id_)"):
+            return "zd_pop id_ cbs"
+        self.refuse(body[0] if body else node.name)
+
+    # ---- handle_callback -------------------------------------------------------------------------------
+    def handle_callback(self, node):
+        a = node.args
+        if [x.arg for x in a.args] != ["self"] or a.vararg is None or a.vararg.arg != "args" or a.kwarg or a.kwonlyargs:
+            self.refuse(node.name, "parameters")
+        body = self.clean(node.body)
+        if len(body) != 1 or not isinstance(body[0], ast.For) or body[0].orelse:
+            self.refuse(node.name, "expected a single for loop")
+        loop = body[0]
+        if ast.unparse(loop.iter) != "self._callbacks.items()" or not isinstance(loop.target, ast.Tuple) or len(loop.target.elts) != 2 \
+                or not all(isinstance(x, ast.Name) for x in loop.target.elts):
+            self.refuse(loop, "loop header")
+        h = loop.target.elts[1].id
+        lb = self.clean(loop.body)
+        call = f"{h}(*args)"
+        if len(lb) == 1 and isinstance(lb[0], ast.Try):
+            t = lb[0]
+            if [ast.unparse(x) for x in self.clean(t.body)] != [call] or t.orelse or t.finalbody or len(t.handlers) != 1:
+                self.refuse(t, "try form")
+            hd = t.handlers[0]
+            if hd.type is None or ast.unparse(hd.type) != "Exception" or self.clean(hd.body):
+                self.refuse(hd, "exception handler (expected `except Exception` that only logs)")
+            # an Exception raised by one handler is logged and swallowed: the iteration goes on
+            return ("fold_left (fun s kv => let '(s, raised) := call (snd kv) s in s) cbs s", True)
+        if len(lb) == 1 and ast.unparse(lb[0]) == call:
+            # no try: the first handler that raises ends the iteration
+            return ("fold_left (fun (acc : S * bool) kv => let '(s, stop) := acc in if stop then acc else call (snd kv) s) cbs (s, false)", False)
+        self.refuse(loop, "loop body")
+
+    # ---- stack_status_callback ---------------------------------------------------------------------------
+    def stack_status_callback(self, node):
+        if [a.arg for a in node.args.args] != ["self", "frame_name", "args"]:
+            self.refuse(node.name, "parameters")
+        return self.ssc(self.clean(node.body), False)
+
+    def ssc(self, body, have_status):
+        if not body:
+            return "(d, false)"
+        s, rest = body[0], body[1:]
+        src = ast.unparse(s)
+        if isinstance(s, ast.If) and not s.orelse and src.startswith("if frame_name != 'stackStatusHandler':") \
+                and [ast.unparse(x) for x in self.clean(s.body)] == ["return"]:
+            return f"if negb is_stack_status_frame then (d, false)\nelse\n{textwrap.indent(self.ssc(rest, have_status), '  ')}"
+        if src == "status = t.sl_Status.from_ember_status(args[0])" and not have_status:
+            return self.ssc(rest, True)          # `status`: the unified status carried by the frame, a parameter
+        if isinstance(s, ast.For) and have_status and not s.orelse and isinstance(s.target, ast.Name) \
+                and ast.unparse(s.iter) == "self._stack_status_listeners[status]" \
+                and [ast.unparse(x) for x in self.clean(s.body)] == [f"{s.target.id}.set_result(status)"] and not rest:
+            return ("let '(l, raised) := py_set_results (dd_get status d) in\n(dd_set status l d, raised)")
+        self.refuse(s)
+
+    # ---- wait_for_stack_status (generator behind contextlib.contextmanager) ---------------------------------
+    REMOVE = "with contextlib.suppress(ValueError):\n    listeners.remove(future)"
+
+    def remove_stmt(self, s):
+        return _dump(ast.unparse(s)) == _dump(self.REMOVE)
+
+    REMOVE_TERM = ("let listeners := dd_get status d in\n"
+                   "let listeners := match l_remove future listeners with Some l => l | None => listeners (* ValueError suppressed *) end in\n"
+                   "dd_set status listeners d")
+
+    def wait_for_stack_status(self, node):
+        if [a.arg for a in node.args.args] != ["self", "status"]:
+            self.refuse(node.name, "parameters")
+        if [ast.unparse(d) for d in node.decorator_list] != ["contextlib.contextmanager"]:
+            self.refuse(node.name, "expected exactly the decorator contextlib.contextmanager")
+        body = self.clean(node.body)
+        enter, out = [], {}
+        have_l = have_f = False
+        i = 0
+        while i < len(body) and not isinstance(body[i], ast.Try) and not (isinstance(body[i], ast.Expr) and isinstance(body[i].value, ast.Yield)):
+            s = body[i]
+            src = ast.unparse(s)
+            if src == "listeners = self._stack_status_listeners[status]" and not have_l:
+                have_l = True
+                enter.append("let listeners := dd_get status d in")
+            elif src == "future = asyncio.get_running_loop().create_future()" and not have_f:
+                have_f = True                      # a new pending future: its identity is the parameter `future`
+            elif isinstance(s, ast.FunctionDef) and have_l and have_f and [ast.unparse(d) for d in s.decorator_list] == ["future.add_done_callback"] \
+                    and len(s.args.args) == 1 and "done_cb" not in out:
+                cb = self.clean(s.body)
+                if len(cb) != 1 or not self.remove_stmt(cb[0]):
+                    self.refuse(s, "done callback body")
+                out["done_cb"] = self.REMOVE_TERM
+            elif src == "listeners.append(future)" and have_l and have_f:
+                enter.append("let listeners := listeners ++ [(future, true)] in")
+            else:
+                self.refuse(s, "statement before the yield")
+            i += 1
+        enter.append("dd_set status listeners d" if have_l else "d")
+        out["enter"] = "\n".join(enter)
+        rest = body[i:]
+        if not rest:
+            self.refuse(node.name, "no yield")
+
+        def is_yield(s):
+            return isinstance(s, ast.Expr) and isinstance(s.value, ast.Yield) and s.value.value is not None and ast.unparse(s.value.value) == "future"
+
+        def exit_term(stmts):
+            stmts = self.clean(stmts)
+            if not stmts:
+                return "d"
+            if len(stmts) == 1 and self.remove_stmt(stmts[0]) and have_l and have_f:
+                return self.REMOVE_TERM
+            self.refuse(stmts[0], "statement after the yield")
+        if isinstance(rest[0], ast.Try):
+            t = rest[0]
+            if len(rest) != 1 or t.handlers or t.orelse or len(self.clean(t.body)) != 1 or not is_yield(self.clean(t.body)[0]):
+                self.refuse(t, "expected `try: yield future` with only a finally clause, as the last statement")
+            out["exit_normal"] = out["exit_exception"] = exit_term(t.finalbody)
+        elif is_yield(rest[0]):
+            # code after a bare yield runs only when the with-body ends normally
+            out["exit_normal"] = exit_term(rest[1:])
+            out["exit_exception"] = "d"
+        else:
+            self.refuse(rest[0], "yield form")
+        out.setdefault("done_cb", "d")
+        return out
+
+    # ---- the operations -------------------------------------------------------------------------------------
+    def await_name(self, call):
+        """name of the EZSP command an awaited call issues"""
+        if not isinstance(call, ast.Call):
+            self.refuse(call, "awaited expression")
+        f = ast.unparse(call.func)
+        if f == "self._command" and call.args:
+            a0 = call.args[0]
+            if isinstance(a0, ast.Constant) and isinstance(a0.value, str):
+                return a0.value
+            if isinstance(a0, ast.Name) and a0.id == "name":
+                return "<name>"
+        if f.startswith("self._ezsp.") and f.count(".") == 2:
+            return f.split(".")[2]
+        self.refuse(call, "awaited call")
+
+    def pure_test(self, t):
+        for n in ast.walk(t):
+            if isinstance(n, (ast.Await, ast.Yield, ast.NamedExpr, ast.Lambda)):
+                self.refuse(t, "test with an await / assignment")
+            if isinstance(n, ast.Call) and ast.unparse(n.func) != "t.sl_Status.from_ember_status":
+                self.refuse(t, "test with a call")
+
+    def leaves(self, stmts):
+        """every path of the block ends in raise / return, without awaiting or calling anything else"""
+        stmts = self.clean(stmts)
+        if not stmts:
+            return False
+        s = stmts[-1]
+        for x in stmts[:-1]:
+            self.refuse(x, "statement in a guard branch")
+        if isinstance(s, ast.Raise):
+            return True
+        if isinstance(s, ast.Return):
+            if s.value is not None:
+                self.pure_test(s.value)
+            return True
+        self.refuse(s, "statement in a guard branch")
+
+    def guard(self, s):
+        """if <pure test>: raise/return [elif ...: raise/return]  (no else that falls through with effects)"""
+        cur = s
+        while True:
+            self.pure_test(cur.test)
+            if not self.leaves(cur.body):
+                self.refuse(cur, "guard branch that does not leave")
+            if not cur.orelse:
+                return
+            if len(cur.orelse) == 1 and isinstance(cur.orelse[0], ast.If):
+                cur = cur.orelse[0]
+            else:
+                self.refuse(cur, "guard with an else branch")
+
+    def simple(self, s, event_var):
+        """one statement of an operation -> list of py_simple terms ([] for a statement without behaviour here)"""
+        v = s.value if isinstance(s, (ast.Assign, ast.Expr)) else None
+        if isinstance(v, ast.Await):
+            if isinstance(v.value, ast.Name):
+                if v.value.id == event_var:
+                    return ["PAwaitEvent"]
+                self.refuse(s, "await of a future other than the one the scope registered")
+            return [f'PAwait "{self.await_name(v.value)}"%string']
+        if isinstance(s, ast.If):
+            self.guard(s)
+            return ["PGuard"]
+        if isinstance(s, ast.AsyncWith) and len(s.items) == 1 and isinstance(s.items[0].context_expr, ast.Call) \
+                and ast.unparse(s.items[0].context_expr.func) == "asyncio_timeout" and s.items[0].optional_vars is None:
+            inner = self.clean(s.body)
+            if len(inner) == 1 and isinstance(inner[0], ast.Expr) and isinstance(inner[0].value, ast.Await) \
+                    and isinstance(inner[0].value.value, ast.Name) and inner[0].value.value.id == event_var:
+                return ["PAwaitEvent"]
+            self.refuse(s, "body of the timeout block")
+        self.refuse(s, "statement of an operation")
+
+    def operation(self, node, statuses):
+        """-> (Gallina record, closure term or None)"""
+        body = self.clean(node.body)
+        pre, post, inner, scope, closure = [], [], None, None, None
+        futures = set()
+        i = 0
+        cbname = None
+        while i < len(body):
+            s = body[i]
+            src = ast.unparse(s)
+            if isinstance(s, ast.With):
+                if scope is not None or len(s.items) != 1:
+                    self.refuse(s, "more than one scope")
+                ce, var = s.items[0].context_expr, s.items[0].optional_vars
+                if not (isinstance(ce, ast.Call) and ast.unparse(ce.func) in ("self.wait_for_stack_status", "self._ezsp.wait_for_stack_status")
+                        and len(ce.args) == 1 and not ce.keywords and isinstance(var, ast.Name)):
+                    self.refuse(s, "with item")
+                st = ast.unparse(ce.args[0])
+                if st not in statuses:
+                    self.refuse(ce.args[0], "status waited for")
+                scope = f"ScopeWith {statuses[st]}"
+                inner = [x for st_ in self.clean(s.body) for x in self.simple(st_, var.id)]
+                i += 1
+                continue
+            if scope is None and isinstance(s, ast.Assign) and len(s.targets) == 1 and isinstance(s.targets[0], ast.Name) \
+                    and ast.unparse(s.value) == "asyncio.Future()":
+                futures.add(s.targets[0].id)       # a new future; nothing registered yet
+                i += 1
+                continue
+            if scope is None and src == "results = []":
+                i += 1
+                continue
+            if scope is None and isinstance(s, ast.FunctionDef) and closure is None:
+                closure = self.list_cb(s, futures)
+                cbname = s.name
+                i += 1
+                continue
+            if scope is None and cbname and src == f"cbid = self.add_callback({cbname})":
+                if i + 1 >= len(body) or not isinstance(body[i + 1], ast.Try):
+                    self.refuse(s, "add_callback must be followed at once by try/finally")
+                t = body[i + 1]
+                if t.handlers or t.orelse or [ast.unparse(x) for x in self.clean(t.finalbody)] != ["self.remove_callback(cbid)"]:
+                    self.refuse(t, "expected try/finally whose finally clause is `self.remove_callback(cbid)`")
+                scope = "ScopeCallback"
+                ev = closure[1]
+                inner = [x for st_ in self.clean(t.body) for x in self.simple(st_, ev)]
+                i += 2
+                continue
+            if isinstance(s, ast.Return) and i == len(body) - 1:
+                if s.value is not None:
+                    self.pure_test(s.value)
+                i += 1
+                continue
+            (pre if scope is None else post).extend(self.simple(s, None))
+            i += 1
+        if scope is None:
+            self.refuse(node.name, "no scope (with wait_for_stack_status / add_callback + try/finally) found")
+        lst = lambda l: "[" + "; ".join(l) + "]"
+        rec = f"{{| op_pre := {lst(pre)}; op_scope := {scope}; op_body := {lst(inner)}; op_post := {lst(post)} |}}"
+        return rec, (closure[0] if closure else None)
+
+    def list_cb(self, node, futures):
+        """the callback _list_command registers -> (Gallina term, name of the future it resolves)"""
+        if [a.arg for a in node.args.args] != ["frame_name", "response"] or node.decorator_list:
+            self.refuse(node.name, "closure parameters")
+        body = self.clean(node.body)
+        if len(body) != 1 or not isinstance(body[0], ast.If):
+            self.refuse(node.name, "closure body")
+        s = body[0]
+        ok = (ast.unparse(s.test) == "frame_name in item_frames" and [ast.unparse(x) for x in self.clean(s.body)] == ["results.append(response)"]
+              and len(s.orelse) == 1 and isinstance(s.orelse[0], ast.If) and ast.unparse(s.orelse[0].test) == "frame_name == completion_frame"
+              and not s.orelse[0].orelse and len(self.clean(s.orelse[0].body)) == 1)
+        if not ok:
+            self.refuse(s, "closure body")
+        setr = self.clean(s.orelse[0].body)[0]
+        c = setr.value if isinstance(setr, ast.Expr) else None
+        if not (isinstance(c, ast.Call) and isinstance(c.func, ast.Attribute) and c.func.attr == "set_result" and isinstance(c.func.value, ast.Name)
+                and c.func.value.id in futures and [ast.unparse(x) for x in c.args] == ["response"]):
+            self.refuse(setr, "completion branch")
+        term = ("if is_item then (results ++ [response], fut, false)\n"
+                "else if is_completion then\n"
+                "  match fut with\n"
+                "  | None => (results, Some response, false)\n"
+                "  | Some _ => (results, fut, true)      (* set_result on a finished future: InvalidStateError *)\n"
+                "  end\n"
+                "else (results, fut, false)")
+        return term, c.func.value.id
+
+
+def gen_events_fn() -> str:
+    import bellows.ezsp as E
+    import bellows.types as t
+    import bellows.zigbee.application as A
+    Z = E.EZSP
+    statuses = {f"t.sl_Status.{m.name}": int(m) for m in t.sl_Status}
+    out = ["(* GENERATED by harness/pysrc.py from the SOURCE TEXT of bellows/ezsp/__init__.py (callback registry, stack-status listeners,\n"
+           "   operations completed by an event) and of ControllerApplication._ensure_network_running -- do not edit *)\n"
+           "From Coq Require Import ZArith NArith List Bool String.\nImport ListNotations.\nOpen Scope N_scope.\n\n", EVENTS_PRELUDE]
+
+    def node_of(cls, name, asyn=False):
+        fn = cls.__dict__.get(name)
+        if fn is None:
+            raise GenError(f"{cls.__name__}.{name}", "not defined by this class")
+        fn = getattr(fn, "__wrapped__", fn)
+        src = textwrap.dedent(inspect.getsource(fn))
+        n = ast.parse(src).body[0]
+        want = ast.AsyncFunctionDef if asyn else ast.FunctionDef
+        if not isinstance(n, want):
+            raise GenError(f"{cls.__name__}.{name}", "coroutine / plain function kind changed")
+        return n
+
+    # the constructor registers stack_status_callback and starts with no listeners
+    init_src = inspect.getsource(Z.__init__)
+    for need in ("self._callbacks = {}", "collections.defaultdict(list)", "self.add_callback(self.stack_status_callback)"):
+        if need not in init_src:
+            raise GenError("EZSP.__init__", f"`{need}` not found")
+    tr = EvTr("EZSP.add_callback (source)")
+    out.append("(* from the source of EZSP.add_callback; hash_cb: what hash(cb) returns *)\n"
+               "Definition py_add_callback {C} (hash_cb : Z) (cbs : zdict C) (cb : C) : zdict C * Z :=\n"
+               + textwrap.indent(tr.add_callback(node_of(Z, "add_callback")), "  ") + ".\n\n")
+    tr = EvTr("EZSP.remove_callback (source)")
+    out.append("(* from the source of EZSP.remove_callback: None = KeyError *)\n"
+               "Definition py_remove_callback {C} (cbs : zdict C) (id_ : Z) : option (C * zdict C) :=\n  "
+               + tr.remove_callback(node_of(Z, "remove_callback")) + ".\n\n")
+    tr = EvTr("EZSP.handle_callback (source)")
+    term, swallow = tr.handle_callback(node_of(Z, "handle_callback"))
+    if swallow:
+        out.append("(* from the source of EZSP.handle_callback; call h s: the state after handler h ran on the frame and whether it raised\n"
+                   "   an Exception (logged and swallowed by the try/except around each handler) *)\n"
+                   "Definition py_handle_callback {C S} (call : C -> S -> S * bool) (cbs : zdict C) (s : S) : S :=\n  " + term + ".\n\n")
+    else:
+        out.append("(* from the source of EZSP.handle_callback: NO try/except around the handlers -- the first one that raises ends the\n"
+                   "   iteration; result: the state and whether an exception escaped *)\n"
+                   "Definition py_handle_callback {C S} (call : C -> S -> S * bool) (cbs : zdict C) (s : S) : S * bool :=\n  " + term + ".\n\n")
+    tr = EvTr("EZSP.stack_status_callback (source)")
+    out.append("(* from the source of EZSP.stack_status_callback; status: the unified status the frame carries; result: the listeners\n"
+               "   and whether an exception escaped *)\n"
+               "Definition py_stack_status_callback (is_stack_status_frame : bool) (status : N) (d : ldict) : ldict * bool :=\n"
+               + textwrap.indent(tr.stack_status_callback(node_of(Z, "stack_status_callback")), "  ") + ".\n\n")
+    tr = EvTr("EZSP.wait_for_stack_status (source)")
+    w = tr.wait_for_stack_status(node_of(Z, "wait_for_stack_status"))
+    out.append("(* from the source of EZSP.wait_for_stack_status (a generator under contextlib.contextmanager): what runs before the\n"
+               "   yield (on entering the with block), after it when the block ends normally, when an exception / cancellation leaves\n"
+               "   the block, and the done-callback attached to the future; future: identity of the newly created future *)\n")
+    for key, nm in (("enter", "py_wait_enter"), ("exit_normal", "py_wait_exit_normal"), ("exit_exception", "py_wait_exit_exception"),
+                    ("done_cb", "py_wait_done_callback")):
+        out.append(f"Definition {nm} (status future : N) (d : ldict) : ldict :=\n{textwrap.indent(w[key], '  ')}.\n")
+    out.append("\n")
+    ops = [("py_leaveNetwork", Z, "leaveNetwork"), ("py_formNetwork", Z, "formNetwork"),
+           ("py_ensure_network_running", A.ControllerApplication, "_ensure_network_running"), ("py_list_command", Z, "_list_command")]
+    for coq, cls, name in ops:
+        tr = EvTr(f"{cls.__name__}.{name} (source)")
+        rec, closure = tr.operation(node_of(cls, name, asyn=True), statuses)
+        if (closure is not None) != (name == "_list_command"):
+            raise GenError(f"{cls.__name__}.{name}", "unexpected closure")
+        if closure:
+            out.append("(* from the source of the callback _list_command registers; is_item: frame_name in item_frames, is_completion:\n"
+                       "   frame_name == completion_frame; fut: the result of the completion future if it is set; result: results, fut,\n"
+                       "   whether an exception escaped *)\n"
+                       "Definition py_list_command_cb {R} (is_item is_completion : bool) (response : R) (results : list R) (fut : option R)\n"
+                       "  : list R * option R * bool :=\n" + textwrap.indent(closure, "  ") + ".\n")
+        out.append(f"(* from the source of {cls.__name__}.{name} *)\nDefinition {coq} : py_op :=\n  {rec}.\n\n")
+    # the scan family goes through _list_command
+    for nm in ("startScan",):
+        pm = Z.__dict__.get(nm)
+        if not isinstance(pm, functools.partialmethod) or pm.func is not Z.__dict__["_list_command"]:
+            raise GenError(f"EZSP.{nm}", "is no longer functools.partialmethod(_list_command, ...)")
+    return "".join(out)
